@@ -12,1073 +12,2915 @@ Definition show_fres (r : fres) : string :=
   end.
 Definition check (rs : list rune) : string := digest (show_fres (format_res rs)).
 Definition full (rs : list rune) : string := show_fres (format_res rs).
-Eval vm_compute in ("<<<M310>>>" ++ check (runes_of_ascii "root packet rootA {@calculatedFrom(
-""""
-)match packetx as x_y_z
-{ // `tick` ""quote"" 'q'
-""" ++ [28040; 24687]%N ++ runes_of_ascii """ : crc , ""a	b""
-    :
-i8i8, ""it's"" : msg_type
-10
-    :
-string_,0123456789:int ,
-}	,	zchar[ 0123456789
-    ]
-_x	`say ""hi""` , @lengthOf(	lengthOf )
-repeat
-    //x
-    chars
-{ repeat i16 u , }, i16 u @lengthOf( Pad ) `say ""hi""`
-, string
-    u8x @calculatedFrom(
-    ""\n""
-    ) //	t
-`" ++ [233]%N ++ runes_of_ascii "` //x
-,MetaDataX`" ++ [233]%N ++ runes_of_ascii "` , char[] Header  @lengthOf(
-    //	t
-    Foo )`u8 x,`, //
-}
-// c
-// " ++ [128512]%N ++ runes_of_ascii " emoji
-packet  repeatCount	{
-@tag( 7
-    // `tick` ""quote"" 'q'
-    )
-char[] x_y_z //x
-`it's` , @calculatedFrom(""`tick`"" )repeat o,
-    @lengthOf(
-    pack )
-@lengthOf( u128 ) @lengthOf(stringy	)
-match zchar as MetaDataX { [ ""// no comment"",0 ] // " ++ [27880; 37322]%N ++ runes_of_ascii "
-: options1
-    ,
-    [
-    ""a	b"" ,
-""`tick`""
-    ,""" ++ [233]%N ++ runes_of_ascii "t" ++ [233]%N ++ runes_of_ascii """, 7
-    // trailing space 
-    , 0123456789
-] :	string_
-    , ""a\""b"" :len, ""a\\"" : MetaDataX	, }, u8x
-{ repeat
-chars MetaDataX
-`two words`, repeat Header	len `` , pack { u16
-asx @calculatedFrom(
-    ""`tick`"")
-    //x
-    `line1
-line2` , f64 string_ ,float32 zchar // " ++ [27880; 37322]%N ++ runes_of_ascii "
-@lengthOf(i8i8 )
-, As @lengthOf(
-    //	t
-    _x ) `u8 x,`, } ,int32 roots`doc` , }
-    , } packet As { @lengthOf( leftPad )
-@calculatedFrom(	"""" ) x_y_z
-@lengthOf(
-    i8i8 )	`" ++ [233]%N ++ runes_of_ascii "` , repeat float32 Z9_
-    //	t
-    ,// `tick` ""quote"" 'q'
-pack ,
-    msg_type
-, // `tick` ""quote"" 'q'
-@rightPad // a // b
-(
-'0' )
-// a // b
-// @lengthOf(
-u16 crc ,
-    @lengthOf( chars)	repeat
-x`it's`
-, } packet body/// triple
-{@calculatedFrom(  """ ++ [28040; 24687]%N ++ runes_of_ascii """ ) T @lengthOf(
-    u8x ) , @tag( 3)
-    // packet A { u8 x, }
-    u32
-    u
-//	t
-// @lengthOf(
-@lengthOf(
-    msg_type
-    // c
-    )
-    , @calculatedFrom(
-""" ++ [128512]%N ++ runes_of_ascii """
-)	repeat char[ 10] A // c
-, x{ string o
-, match  Pad // " ++ [27880; 37322]%N ++ runes_of_ascii "
-as rootA { ""packet"" :matchKey } ,u64
-x_y_z ,char[]
-leftPad @lengthOf( float // @lengthOf(
-)
-    , /// triple
-}
-,
-    repeat uint8x falsey	`" ++ [233]%N ++ runes_of_ascii "`, @lengthOf( Z9_ )u8 f32a , @tag( 0123456789 )
-// @lengthOf(
-// `tick` ""quote"" 'q'
-u8 matchKey ``
-, Pad trueish `say ""hi""`
-    ,}
-")).
-Eval vm_compute in ("<<<M382>>>" ++ check (runes_of_ascii "options {
-    StringPrefixLenType = u16;
-    ArrayPrefixLenType = u16;
-}
+Eval vm_compute in ("<<<M3876>>>" ++ check (runes_of_ascii "options	{
+    LittleEndian
 
-packet SampleBinary {
-    uint16 MsgType `" ++ [28040; 24687; 31867; 22411]%N ++ runes_of_ascii "`,
-    u16 BodyLenght @lengthOf(Body) `" ++ [28040; 24687; 20307; 38271; 24230]%N ++ runes_of_ascii "`,
-    match MsgType as Body {
-        1 : Logon,
-        2 : Logout,
-        3 : Heartbeat,
-        4 : RiskControlRequest,
-        5 : RiskControlResponse,
-    },
-    @calculatedFrom(""CRC32"")
-    u32 Ckecksum `" ++ [26657; 39564; 21644]%N ++ runes_of_ascii "`,
-}
-
-packet Logon {
-    @leftPad('0')
-    char[10] UserName `" ++ [29992; 25143; 21517]%N ++ runes_of_ascii "`,
-    string Password `" ++ [23494; 30721]%N ++ runes_of_ascii "`,
-    uint64 ClientId `" ++ [23458; 25143; 31471]%N ++ runes_of_ascii "ID`,
-    u16 HeartbeatInterval `" ++ [24515; 36339; 38388; 38548]%N ++ runes_of_ascii "`,
-}
-
-packet Logout {
-    @rightPad('0')
-    char[10] UserName `" ++ [29992; 25143; 21517]%N ++ runes_of_ascii "`,
-    uint64 ClientId `" ++ [23458; 25143; 31471]%N ++ runes_of_ascii "ID`,
-}
-
-packet Heartbeat {
-}
-
-packet RiskControlRequest {
-    string UniqueOrderId `" ++ [21807; 19968; 35746; 21333; 21495]%N ++ runes_of_ascii "`,
-    char[16] ClOrdID `" ++ [23458; 25143; 35746; 21333; 21495]%N ++ runes_of_ascii "`,
-    char[3] MarketID `" ++ [24066; 22330]%N ++ runes_of_ascii "id`,
-    char[12] SecurityID `" ++ [35777; 21048; 20195; 30721]%N ++ runes_of_ascii "`,
-    char Side `" ++ [20080; 21334; 26041; 21521]%N ++ runes_of_ascii "`,
-    char OrderType `" ++ [35746; 21333; 31867; 22411]%N ++ runes_of_ascii "`,
-    u64 Price `" ++ [20215; 26684]%N ++ runes_of_ascii "`,
-    u32 Qty `" ++ [25968; 37327]%N ++ runes_of_ascii "`,
-    repeat string ExtraInfo `" ++ [38468; 21152; 20449; 24687]%N ++ runes_of_ascii "`,
-    repeat SubOrder {
-        char[16] ClOrdID `" ++ [23376; 35746; 21333; 21495]%N ++ runes_of_ascii "`,
-        u64 Price `" ++ [23376; 35746; 21333; 20215; 26684]%N ++ runes_of_ascii "`,
-        u32 Qty `" ++ [23376; 35746; 21333; 25968; 37327]%N ++ runes_of_ascii "`,
-    },
-}
-
-packet RiskControlResponse {
-    string UniqueOrderId `" ++ [21807; 19968; 35746; 21333; 21495]%N ++ runes_of_ascii "`,
-    i32 Status `" ++ [29366; 24577]%N ++ runes_of_ascii "`,
-    string Msg `" ++ [32467; 26524; 20449; 24687]%N ++ runes_of_ascii "`,
-    repeat Detail,
-}
-
-packet Detail {
-    string RuleName `" ++ [35268; 21017; 21517; 31216]%N ++ runes_of_ascii "`,
-    u16 Code `" ++ [21407; 22240; 20195; 30721]%N ++ runes_of_ascii "`,
-}")).
-Eval vm_compute in ("<<<M1822>>>" ++ check (runes_of_ascii "MetaData i8i8 {
-    Pad rootA `tab	here`,
-    x_y_z metadata,
-    zchar[255] x_y_z `doc`,
-    metadata i8i8,
-    uint8x leftPad `say ""hi""`,
-    int32 charz `" ++ [28040; 24687; 31867; 22411]%N ++ runes_of_ascii "`,
-}
-
-packet len {
-    char[255] f32a @calculatedFrom(""a	b"") `// not a comment`,
-    f64 u8x,
-    options1 {
-        string charz `u8 x,`,
-        string_ @calculatedFrom(""a	b""),
-        repeat falsey {
-            a1 `it's`,
-            stringy @lengthOf(Foo),
-            repeat zchar[10] Logon `line1
-            line2`,
-            uint16 repeatCount @lengthOf(options1) `doc`,
-        },
-        repeat u packetx,
-    },
-    falsey x_y_z,
-    char[] matchKey `u8 x,`,
-}
-
-packet float {
-    @lengthOf(Foo)
-    u16 a1 `crlf
-    line`,
-    // `tick` ""quote"" 'q'
-    @leftPad()
-    @lengthOf(string_)
-    match asx as lengthOf {
-        """" : f32a,
-    },
-    roots {
-        f32 A `a\`,
-        i8 trueish @lengthOf(rootA),
-    },
-    options1 @lengthOf(_x),/// triple
-    @lengthOf(asx)
-    charz,
-    zchar[10] a1 @calculatedFrom(""// no comment"") `say ""hi""`,//x
-    uint16 x @calculatedFrom(""a\\""),
-}")).
-Eval vm_compute in ("<<<M1467>>>" ++ check (runes_of_ascii "  options
-
-    { StringPrefixLenType 
-= u8
-    ;
-
-ArrayPrefixLenType
-=	u32 ;
-FixedStringPadFromLeft 
-=false
-
-; 
+    =
+true
+;
+	ArrayPrefixLenType	=u8; 
 FixedStringPadChar
-= ' ';
+    =
+'0'
+	;
+JavaPackage 
+=	""co\
+m.example.msg""
 
-} packet
-Party
-	{ repeat i16 Qty,
-repeat
-string	Tail
+;
 
-    ,i8
+GoPackage  =""ms\
+g"" ;GoModule =
 
-OrderId , i8  msgKind, }  packet Ack
+    ""example.com/msg"" 
+;}
 
-{	Party
+    MetaData
 
-    , 
-repeat
-InRef20  {
+Meta  { u32 SeqNum
+	`sequence number`
+,  char[ 
+8 ]
+Symbol
+	`symbol` 
+, zchar[5 ]
+ZSym
+`z symbol` , string
+Note , Symbol
 
-    Party
-	,int8 
-tag7
-,char[5 ]
+    AltSymbol`alias of symbol` 
+,
+f64
 
-    OrderId,  zchar[
-7
-]Tail
+    Price , 
+}
 
+    packet
+
+Inner{
+    u8
+    a , i16 b	,
+
+string 
+c
+	, }
+
+packet 
+Inner2	{ u8
+
+    a2
+    ,	char[3
+    ]
+c2
+	, }	packet  Logon
+
+    { u8 x ,string
+
+    user ,
+    repeat 
+u16  codes,
+
+}packet 
+Logout { u16 reason
+,}
+packet
+
+Empty  {
+    }
+root
+    packet
+    Msg
+{u8	su8
+
+,uint8
+luint8 
+,
+
+    u16
+
+su16
     ,
-    char[]count 
-, InPrice45{
+uint16 luint16 ,  u32 su32 
+, 
+uint32 luint32  ,
 
-Party
+u64
+su64,uint64 luint64
+,i8 si8,
+    int8
 
-,char[  1
-    ] Px,}  , } 
-,char[ 12	]
-
-price , 
-int8
-    sym
+    lint8 ,
+	i16 si16 ,
+	int16 lint16
 
 ,
-}
-packet Reject
-{repeat
-    InPrice47
-	{Party
+    i32 si32
+,
+    int32
+lint32
+	,
+    i64
+    si64
+, int64 lint64 ,	f32
+
+sf32
+
+    ,	float32	lfloat32,f64
+
+sf64
+,float64 lfloat64 
+,
+
+    char[
+    6
+
+]
+
+fsplain	, 
+@leftPad	('0' ) 
+char[ 4 
+]
+
+fs0
+,
+@rightPad
+    (
+
+    '0'
+
+    )char[ 5] fs1
+,@leftPad
+
+    ( ' '
+) 
+char[ 6]	fs2 ,
+    @rightPad
+	(	' '
+    ) 
+char[  7
+
+]fs3 ,
+	@leftPad  ('\x00'
+    ) char[8 
+] fs4 ,
+@rightPad (
+
+'\x00')char[
+9] 
+fs5,
+@leftPad (	)
+	char[
+    10
+    ]fs6, @rightPad
+(
+) char[11]
+	fs7
+, zchar[
+	7
+	] fz
+	, 
+@leftPad (
+    '0'	) zchar[
+3
+    ]fzl0,	string 
+s1 `doc`,
+char[]  s2
+
+    , Inner
+
+    , Sub { u8
+q ,
+
+    string	w ,
+    Deep {u16
+
+    z
+    ,
+repeat i32	zs
+    ,
+    }
+
+, } ,
+
+    repeat
+u8
+ru8 
+, repeat
+
+u16
+ru16
+,repeat
+    u32
+	ru32,
+repeat 
+u64  ru64 ,
+    repeat
+    i8 
+ri8
+,
+	repeat
+i16
+ri16 , repeat
+
+i32
+	ri32
+
+,
+    repeat i64 ri64
+
+,
+repeat
+
+f32 rf32 ,repeat
+
+    f64 rf64 , repeat 
+string rstr
+,
+	repeat char[]  rstr2 , repeat	char[  3
+    ]  rfs ,  repeat zchar[  3
+
+]
+rfz, repeat 
+Inner2  , repeat Grp{
+u8	k
+,
+    char[2]	v
+
 ,
 	}
 	,
-	zchar[ 
-4
-	]
-    x  ,repeat Ack
-    , zchar[2]Ref
+
+    SeqNum , SeqNum seq2  ,
+repeat
+
+SeqNum
+	seqs
 
     ,
-	repeat 
-Party , }  packet
-    Cancel{
-Reject ,	repeat
-string
-    f1 ,
-uint16
-OrderId,
-    u8
-Acct
-,
-	int8
-msgKind ,  }
-	root
-	packet  Fill { u8
-    count
-	, 
-char[]tag7	,
-zchar[
-7 
-]
-
-    Acct , u32 OrderId ,
-
-    u32 
-Note  @lengthOf( Body )
-
-,match  OrderId as
-	Body {
-106 :Cancel 
-, 196  :
-Reject,
-
-    74:
-    Party,
-75: Ack ,
-    } ,}
-")).
-Eval vm_compute in ("<<<M1489>>>" ++ check (runes_of_ascii "options {
-    LittleEndian = true;
-    StringPrefixLenType = u64;
-    ArrayPrefixLenType = u8;
-    FixedStringPadChar = '0';
-}
-
-packet Reject {
-    i32 Ref,
-    repeat f64 OrderId,
-    repeat InNote12 {
-        u8 pad0,
-    },
-    @leftPad(' ')
-    char[6] count,
-}
-
-packet Logout {
-    zchar[6] Tail,
-    repeat string venue,
-}
-
-packet Cancel {
-    u64 count,
-    repeat char[5] lastPx,
-    i64 Tail,
-    repeat InF140 {
-        repeat Logout,
-        repeat Reject,
-    },
-}
-
-root packet Trade {
-    repeat InMsgkind39 {
-        repeat Reject,
-        char[4] Px,
-    },
-    string Acct,
-    uint16 price,
-    f32 OrderId,
-    u16 x,
-    u16 clOrdID @lengthOf(Body),
-    match x as Body {
-        178 : Logout,
-        13 : Cancel,
-        174 : Reject,
-    },
-    u16 Flags @calculatedFrom(""CR\
-        C32""),
-}")).
-Eval vm_compute in ("<<<M272>>>" ++ check (runes_of_ascii "root packet Header {
-int16 repeatCount ,
-    } //x
-root packet len {  match i8i8
-    as// c
-roots{ [""abc"" , 255 ]
-    : Pad, }  ,	@rightPad ( '\x00' ) @lengthOf(	leftPad
-)float32 As `" ++ [28040; 24687; 31867; 22411]%N ++ runes_of_ascii "` , @calculatedFrom( ""1""
-) zchar[  007
-] // " ++ [128512]%N ++ runes_of_ascii " emoji
-stringy @lengthOf( f32a ) ,}
-    // @lengthOf(
-    packet  BodyLength{
-@lengthOf( trueish ) char[
-7 ]
-    falsey
-@calculatedFrom( """ ++ [128512]%N ++ runes_of_ascii """ )	, @calculatedFrom(""a\""b""
-) x`// not a comment` , @lengthOf(chars ) char[ 65535 ]leftPad
-@calculatedFrom(""" ++ [128512]%N ++ runes_of_ascii """
-) , trueish ,
-string lengthOf
-    , }root
-    packet
-_x
-{ match _x as
-uint8x
-{// c
-[""`tick`"" ,
-""packet""] :
-u, [// `tick` ""quote"" 'q'
-007 , ""abc""
-,255
-    , ""\n"" , 7 , // c
-""a	b"" , 0
-    ]
-    :
-    // c
-    Foo	[ 007 , """ ++ [233]%N ++ runes_of_ascii "t" ++ [233]%N ++ runes_of_ascii """ , 0 ]
-:
-x_y_z //	t
-} ,
-}
-")).
-Eval vm_compute in ("<<<M21>>>" ++ check (runes_of_ascii "packet	Z9_ {repeat options1 {
-    repeat i16 o
-// a // b
-/// triple
-`two words`
-, match charz
-as o { [ 4294967296 ,
-""// no comment""	]:
-// `tick` ""quote"" 'q'
-// packet A { u8 x, }
-u
-    , } , match float
-    as
-    tag
-{ [
-00] : leftPad ,	[
-""" ++ [233]%N ++ runes_of_ascii "t" ++ [233]%N ++ runes_of_ascii """ ,
-""\n""
-, 0 //
-, ""CRC32"" ,
-    1
-    , """ ++ [28040; 24687]%N ++ runes_of_ascii """ , 255
-    , 1]
-: options1, 255	: x  , 00 : x ,
-    } , repeat
-string asx `u8 x,` , } ,
-// " ++ [27880; 37322]%N ++ runes_of_ascii "
-// a // b
-zchar[ 3	] falsey ,}
-    packet u
+	Symbol ,AltSymbol	alt,ZSym 
+, Note  , 
+repeat
+	Symbol
+    syms
+, Price px
+,u16  MsgType	,u32  BodyLen
+@lengthOf( 
+Body 
+)  , 
+match
+	MsgType as Body
 {
-//x
-// trailing space 
-zchar[ 0 ]asx ,
-    @tag(
-    10
-)
-    @rightPad (' ' ) @rightPad
-    //x
-    ( '\x00') Logon
-    @calculatedFrom( """ ++ [128512]%N ++ runes_of_ascii """ ) , repeat char[255 ] calculatedFrom	, uint16 lengthOf,
-    }root /// triple
-packet  pack { }
-")).
-Eval vm_compute in ("<<<M1401>>>" ++ check (runes_of_ascii "options { // c1a
-  // c1b
-FixedStringPadChar = // c3
-'0'
-    // c4
-; // c5
-} packet
-    // c7
-Q { zchar[ // c10a
-  // c10b
-4 // c11
-] // c12a
-  // c12b
-z ,
-    // c14
-@rightPad // c15
-( // c16
-'\x00' )
-    // c18
-char[ // c19a
-  // c19b
-3 ] // c21
-n
-    // c22
-,
-    // c23
-char[
-    // c24
-5
-    // c25
-] // c26a
-  // c26b
-d , // c28a
-  // c28b
-} // c29a
-  // c29b
-root // c30
-packet // c31
-R // c32
-{ // c33a
-  // c33b
-Q // c34a
-  // c34b
-, zchar[
-    // c36
-8
-    // c37
-] // c38
-top
-    // c39
-, // c40
-repeat // c41
-zchar[ // c42
-2 ] // c44
-zs // c45
-,
-    // c46
-} ")).
-Eval vm_compute in ("<<<M1174>>>" ++ check (runes_of_ascii "// top
-MetaData // c0
-x_y_z // c1
-{ // c2
-char // c3
-body // c4
-, // c5
-f64 // c6
-i8i8 // c7
-`two words` // c8
-, // c9
-body // c10
-body // c11
-`" ++ [28040; 24687; 31867; 22411]%N ++ runes_of_ascii "` // c12
-, // c13
-} // c14
-root // c15
-packet // c16
-chars // c17
-{ // c18
-@lengthOf( // c19
-i64_ // c20
-) // c21
-chars // c22
-, // c23
-i8i8 // c24
-{ // c25
-falsey // c26
-@lengthOf( // c27
-stringy // c28
-) // c29
-`doc` // c30
-, // c31
-} // c32
-, // c33
-x // c34
-@lengthOf( // c35
-A // c36
-) // c37
-`crlf
-line` // c38
-, // c39
-} // c40
-")).
-Eval vm_compute in ("<<<M160>>>" ++ check (runes_of_ascii "root packet o
-    { }	packet T{ zchar[ 4294967296
-]asx `say ""hi""` ,} MetaData f32a{f64 MetaDataX  `say ""hi""`
-    // packet A { u8 x, }
-    ,x_y_z
-    rootA`doc`
-, //	t
-u32
-repeatCount
-    /// triple
-    ,
-string T
-, u8x u`doc` ,} options {x_y_z
-    = 0	} // packet A { u8 x, }
-root packet// c
-MetaDataX { @calculatedFrom( ""abc""
-) @calculatedFrom(
-    """ ++ [128512]%N ++ runes_of_ascii """ ) @tag( 3
-) charz@lengthOf(
-Packet )
-    `line1
-line2` ,	} /// triple")).
-Eval vm_compute in ("<<<M258>>>" ++ check (runes_of_ascii "MetaData stringy
-    //x
-    { A MetaDataX ,}
-    packet  x	{ @calculatedFrom( /// triple
-"""")
-char[] body``
-/// triple
-// c
-, matchKey @lengthOf( uint8x ) , } // packet A { u8 x, }
-options{	T
-// `tick` ""quote"" 'q'
-// trailing space 
-=true
-; o// packet A { u8 x, }
-=
-// c
-//	t
-'0'	; asx
-    //
-    = 4294967296
-x= ""CRC32""o =
-zchar[ 7 ] } options { /// triple
-As =false ; } //x")).
-Eval vm_compute in ("<<<M122>>>" ++ check (runes_of_ascii "root packet u128{} root packet
-charz {// packet A { u8 x, }
-@tag( 7
-    )MetaDataX	, _x { uint32
-As,
-    charz ,}	,
-len {  int64	u128 , repeat falsey
-{x_y_z@lengthOf(
-asx )
-//	t
-// c
-, // c
-}
-,repeatCount
-    {	metadata
-@calculatedFrom( ""\n""
-) `doc` , Logon Foo
-// trailing space 
-// " ++ [128512]%N ++ runes_of_ascii " emoji
-,} // " ++ [27880; 37322]%N ++ runes_of_ascii "
-,
-float  rootA , }
-, }
-// a // b
-")).
-Eval vm_compute in ("<<<M212>>>" ++ check (runes_of_ascii "/// triple
-packet A
-{@calculatedFrom(""a\""b"" ) Logon`u8 x,` , metadata BodyLength
-, } // trailing space 
-packet	As{ @rightPad (
-) repeat
-uint8
-chars , i64
-/// triple
-// a // b
-zchar `say ""hi""` ,@rightPad
-( '\x00' )
-@leftPad (
-'0')@lengthOf( int
-) char[
-    65535  ] rootA , } root packet trueish
-{}
-")).
-Eval vm_compute in ("<<<M1719>>>" ++ check (runes_of_ascii "// top
-packet trueish {
-    // c2
-    repeat u32 MetaDataX `doc`,// c7
-    Header {
-        // c9
-        packetx o `u8 x,`,// c13
-    },// c15
-    @leftPad('\x00')
-    // c19
-    repeat char[0123456789] repeatCount,// c25
-}// c26
+1
 
-packet Packet {
-    // c29
-}// c30")).
-Eval vm_compute in ("<<<M1991>>>" ++ check (runes_of_ascii "
+: 
+Logon
+
+    , [2
+
+    ,3
+
+    ]  : Logout ,7  :Logon
+,
+	9
+    :
+
+Empty ,
+	},	u32
+
+Checksum  @calculatedFrom( 
+""CRC32""
+
+    ) ,}
+")).
+Eval vm_compute in ("<<<M4259>>>" ++ check (runes_of_ascii "
 packet
-	x 
-{	char	matchKey  @lengthOf(
-x_y_z) 	 //
-  ,	}
-    packet  trueish{ @tag(
-    255
-	)
 
-char
-	calculatedFrom
+    Foo {
+calculatedFrom
+    @calculatedFrom( // c
+		""\n"" ) `// not a comment`,
+repeat
+char[] uint8x  `" ++ [28040; 24687; 31867; 22411]%N ++ runes_of_ascii "`
+,
+options1  //x
+  	@calculatedFrom( // 50% %s
+  	""it's""	)
+    ,int64
 
+    a1 , 
+@tag(00 )
+
+match lengthOf
+	as
+int
+
+    {
+
+""a\""b""
+	:
+msg_type
+	,	} ,	@lengthOf(// trailing space 
+      stringy)
+	metadata
+@calculatedFrom(
+	""" ++ [233]%N ++ runes_of_ascii "t" ++ [233]%N ++ runes_of_ascii """
+)  ,
+	repeat zchar
+
+    {char[
+255 ] 
+    //x
+u8x
+	,  repeat zchar
+
+, match
+    f32a
+    // @lengthOf(
+    	as
+pack
+
+{
+	""// no comment"" :	//x
+
+a1
+
+,
+    }
+,
+
+    }
+    ,  } // @lengthOf(
+	  root	packet Packet
+    { }	packet float
+{
+    @calculatedFrom( """ ++ [233]%N ++ runes_of_ascii "t" ++ [233]%N ++ runes_of_ascii """ )
+    x_y_z
+,	char[
+3 ]
+	x_y_z
+@calculatedFrom( ""a\\"")
+`" ++ [28040; 24687; 31867; 22411]%N ++ runes_of_ascii "`
+,  @tag(10
+) u16  Header
 @lengthOf(
 
-Header )
+zchar )
+	`crlf
+line`
+
+    ,@lengthOf(charz
+    )
+
+    repeat
+    trueish { metadata  @lengthOf(  falsey 
+) 
+, repeat
+        // " ++ [27880; 37322]%N ++ runes_of_ascii "
+  //	t
+char[] uint8x
+
+`tab	here`
     ,
-	}	MetaData
-	options1 
+
+int64 rootA	`" ++ [233]%N ++ runes_of_ascii "` , repeat crc
+    {match
+    i8i8  as T
+
+{
+
+[""// no comment"" 
+,
+	""CRC32""
+
+,
+	""" ++ [28040; 24687]%N ++ runes_of_ascii """]:
+    zchar 
 // trailing space 
-	{
-	}  packet
-MetaDataX	{ } packet trueish  { } ")).
-Eval vm_compute in ("<<<M1701>>>" ++ check (runes_of_ascii "packet float {
-    f64 float `u8 x,`,
-    // " ++ [27880; 37322]%N ++ runes_of_ascii "
-    //	t
-    @tag(1)
-    len tag `crlf
-    line`,
+	, 
+[
+
+4294967296	// `tick` ""quote"" 'q'
+
+] 
+: BodyLength,	""\n"":	_x,4294967296 : BodyLength  , } ,body `" ++ [233]%N ++ runes_of_ascii "`, repeat
+
+metadata 
+zchar
+
+,
+
+repeat
+
+f32
+crc  `// not a comment`  , } ,
+}
+    // a // b
+    // packet A { u8 x, }
+	  , // 50% %s
+	@leftPad
+    ()
+
+    char[]  Pad `" ++ [28040; 24687; 31867; 22411]%N ++ runes_of_ascii "` 
+,
+repeat
+
+calculatedFrom BodyLength  ,  match
+
+_x as	int
+{""{,}""
+:
+trueish
+	,	42 : 
+x_y_z
+
+[ 7
+
+    ] :tag 
+,
+    } ,
+
+@leftPad( 	 //	t
+		) u8x	/// triple
+    {
+
+repeat
+    char[
+42 ] 
+	    /// triple
+
+// 50% %s
+
+	matchKey
+
+,
+
+    char[
+65535 // packet A { u8 x, }
+      ] len	@lengthOf(
+roots  )	,crc
+	, char[ 
+    // trailing space 
+	  // a // b
+0123456789 ]
+    len@lengthOf(
+leftPad )
+    // c
+//	t
+, } 
+, 
+    //
+	  repeat  int64
+calculatedFrom 
+`" ++ [28040; 24687; 31867; 22411]%N ++ runes_of_ascii "` 
+,repeat
+    repeatCount	rootA
+    , 
+}
+packet
+
+    a1{	/// triple
 }
 
-root packet u {
-    o x `it's`,
-    @rightPad()
-    repeat zchar[00] Foo,
+")).
+Eval vm_compute in ("<<<M3650>>>" ++ check (runes_of_ascii "root
+
+    packet 
+chars
+    {	char[] asx
+
+@calculatedFrom( ""packet"" 	 // " ++ [128512]%N ++ runes_of_ascii " emoji
+	), pack
+    _x
+    `crlf
+line`
+
+,
+    @lengthOf(	// trailing space 
+  	string_
+    ) As {
+	i8 
+body  @calculatedFrom(""// no comment""
+
+    )	// trailing space 
+  	, i64
+	msg_type 
+`" ++ [28040; 24687; 31867; 22411]%N ++ runes_of_ascii "`	, 
+
+// a // b
+    //
+      i32 A 
+, } 
+,
+
+@leftPad
+(// a // b
+		'0'
+
+    )
+i8i8
+
+    uint8x
+    `
+`
+,  tag  roots  // trailing space 
+  	, 
+repeat	char[
+    7] msg_type ,
+	falsey@calculatedFrom(
+	""\n"" 	 // `tick` ""quote"" 'q'
+      )
+	`a\`	,  //	t
+}  options
+
+{
+
+leftPad=  """"
+
+    ; x
+	=char[
+
+255
+
+    ]
+	; asx =
+	' '  }
+packet
+	string_ { repeat
+
+    f32 
+body ,
+
+}
+	root
+    packet	options1{@lengthOf(  
+  //x
+
+lengthOf)string
+
+string_`line1
+line2` , 
+@rightPad	('0' )char[]
+
+zchar @lengthOf(  f32a
+
+    )
+`line1
+line2` ,@lengthOf(
+
+pack )@leftPad	( ' ' )  repeat
+
+    x 
+u128 , @calculatedFrom( ""{,}""  ) 	 //x
+
+match len 
+as  roots{  10:	falsey
+
+// c
+		//	t
+  ,
+    ""a\""b"" : 
+metadata
+,
+
+} ,
+i32  body , 
+u64	u8x
+@lengthOf(
+    x_y_z
+
+    )
+	    //
+    //	t
+  	,  //	t
+@lengthOf(
+
+    u128  )
+
+    zchar[
+    /// triple
+  // a // b
+  00
+]stringy  , }packet
+roots 	 //x
+	{ int64
+o
+,
+	int64
+
+uint8x,
+i16
+    _x 
+, float32 int ,  charz {
+char[]
+
+    Packet
+,
+int16  Z9_ 
+`a\`
+    ,	zchar[
+    255 ]tag
+	,  } , 
+    //
+      // " ++ [27880; 37322]%N ++ runes_of_ascii "
+	  match
+Pad	as
+stringy
+
+    {	42  : 
+a1 , }
+// packet A { u8 x, }
+  // c
+  ,
+    x_y_z options1 ,	crc@calculatedFrom( ""abc""// " ++ [27880; 37322]%N ++ runes_of_ascii "
+    )
+`crlf
+line`
+	,@tag(
+
+0
+
+)
+//	t
+
+	@leftPad
+(
+)
+
+u8
+	x,
+	}")).
+Eval vm_compute in ("<<<M3995>>>" ++ check (runes_of_ascii "MetaData repeatCount {
+}
+
+MetaData crc {
+}
+
+packet lengthOf {
+    // 50% %s
+    @leftPad(' ')
+    @calculatedFrom(""\n"")
+    string u128 @lengthOf(_x),
+    @tag(00)
+    u32 i8i8,
+    Packet o,
+    @tag(0)
+    repeat char[7] u8x `
+    `,
+    u128 options1,
+    @lengthOf(asx)
+    @calculatedFrom(""" ++ [128512]%N ++ runes_of_ascii """)
+    // 50% %s
+    @lengthOf(MetaDataX)
+    MetaDataX `say ""hi""`,
+    // `tick` ""quote"" 'q'
+    // `tick` ""quote"" 'q'
+    repeat roots `a\`,
+}
+
+packet A {
+    i32 int @calculatedFrom(""a\\"") `line1
+    line2`,
+    // `tick` ""quote"" 'q'
+    uint8 Header `it's`,
+    falsey @calculatedFrom(""a\\""),
+    @calculatedFrom(""x y"")
+    Z9_ @lengthOf(crc),
+    @lengthOf(stringy)
+    uint32 leftPad,
+    match calculatedFrom as matchKey {
+        [
+            007, 0, 65535, 00, 42,
+            0, 42
+        ] : stringy,
+    },//
+    @rightPad('\x00')
+    len {
+        match Packet as u128 {
+            [1] : crc,
+        },
+    },
+    char charz,
+    falsey {
+        int8 Foo @lengthOf(Packet),
+        Pad @calculatedFrom(""{,}"") `say ""hi""`,
+    },
+    zchar[10] zchar @calculatedFrom(""a\\"") `two words`,
+}
+
+packet Pad {
+    @rightPad('0')
+    repeat falsey string_ `// not a comment`,
+    As,
+    repeat o chars `doc`,
+    @rightPad('0')
+    Z9_ {
+        f64 Z9_,
+        T charz `line1
+        line2`,
+        x,
+        u32 u ``,
+    },
+    i64_,
+}")).
+Eval vm_compute in ("<<<M573>>>" ++ check (runes_of_ascii "root packet i64_ { repeat zchar[
+    7] int , } packet chars {
+// a // b
+// trailing space 
+zchar[
+    007] Header /// triple
+`u8 x,`
+,
+    // " ++ [128512]%N ++ runes_of_ascii " emoji
+    match As as// `tick` ""quote"" 'q'
+roots { // c
+[ 4294967296 ] : calculatedFrom	,""`tick`"" :  Z9_ , 007 : asx [ 007 , 42/// triple
+,
+    007,7
+    // trailing space 
+    , ""1"" , // 50% %s
+007 ,  ""a	b"" , """ ++ [233]%N ++ runes_of_ascii "t" ++ [233]%N ++ runes_of_ascii """]
+: i8i8 ,	} ,
+    //
+    match _x
+as
+repeatCount {
+3 :
+Header, [
+255 ]// " ++ [27880; 37322]%N ++ runes_of_ascii "
+:rootA
+,
+    }
+,char[ 255
+]lengthOf `100% of %d` ,
+    @leftPad (
+    '\x00'
+)
+zchar
+{ char[ 7 ] roots @lengthOf(
+u )  ,
+    i8 trueish , match _x //x
+as
+    // packet A { u8 x, }
+    body { 4294967296// 50% %s
+: // packet A { u8 x, }
+x_y_z
+    //	t
+    ,
+    }
+, }, char[
+65535 ]leftPad`doc` /// triple
+,
+} root packet _x {
+char[ 00 ] rootA `tab	here` ,//
+int8 repeatCount , f32 a1 @lengthOf(  calculatedFrom) ,
+Z9_{ char[	65535 ]
+    repeatCount	@calculatedFrom( ""// no comment""
+    ) , }  ,
+    @leftPad (
+    // c
+    ' ') repeat u32 chars  `two words` // @lengthOf(
+, Pad {float32 pack @calculatedFrom(	""x y"" ), },	i32 trueish `crlf
+line`
+    , string_
+    @lengthOf( Packet ) ,// " ++ [128512]%N ++ runes_of_ascii " emoji
+} root packet  BodyLength {@calculatedFrom(
+    // " ++ [27880; 37322]%N ++ runes_of_ascii "
+    ""// no comment""
+) i32
+calculatedFrom ,
+}")).
+Eval vm_compute in ("<<<M3924>>>" ++ check (runes_of_ascii "root
+packet u128
+{
+    metadata
+zchar ,
+	} 
+MetaData
+
+Packet
+
+    {
+u64  x_y_z `it's`
+	, }
+
+    options
+
+    {
+
+} packet
+
+o {
+repeat  // a // b
+  int64 lengthOf
+
+,string
+uint8x  // 50% %s
+	,
+
+repeat
+
+    uint64 trueish`a\`
+
+    , @leftPad ('0')  char[]
+i8i8
+@calculatedFrom(
+""CRC32"" ) 
+,
+    @calculatedFrom(
+
+""" ++ [128512]%N ++ runes_of_ascii """
+) 
+repeat 
+zchar
+    {
+    int,repeat
+float32// trailing space 
+    stringy
+	,
+
+    stringy
+	, 
+match 	 // c
+
+packetx
+as x_y_z {
+4294967296: rootA[  7
+
+    ,  3]
+:
+A
+,
+""" ++ [233]%N ++ runes_of_ascii "t" ++ [233]%N ++ runes_of_ascii """
+    : zchar
+, 
+[
+
+1 ,
+""packet"" 
+    // packet A { u8 x, }
+  // " ++ [27880; 37322]%N ++ runes_of_ascii "
+  , 
+    // trailing space 
+
+10 ,
+""" ++ [28040; 24687]%N ++ runes_of_ascii """ ,""a	b""
+	] : a1  ,
+0123456789 :tag 
+// `tick` ""quote"" 'q'
+		,	} , }
+,
+
+    @tag( 
+  // c
+
+/// triple
+		00
+)	int16
+	BodyLength
+    @lengthOf(
+	A 
+	// a // b
+  //	t
+	  )
+    , u8
+
+    leftPad @lengthOf(
+
+    asx
+    )
+
+`crlf
+line`  ,@leftPad
+()
+int32
+lengthOf@calculatedFrom(""a\""b"") `tab	here` ,
+
+    @lengthOf(	i8i8
+
+) repeat uint64 trueish
+
+,@calculatedFrom(
+
+""\n"" 
+)
+
+    repeat
+matchKey
+
+    { char[
+
+    7  ]  falsey	`tab	here`// " ++ [27880; 37322]%N ++ runes_of_ascii "
+    ,} ,	}MetaData 
+calculatedFrom// `tick` ""quote"" 'q'
+
+{
+
+    }
+")).
+Eval vm_compute in ("<<<M4257>>>" ++ check (runes_of_ascii "root packet T {
+    u64 int,
+    match rootA as BodyLength {
+        ""it's"" : o,
+        10 : int,
+        ""packet"" : string_,
+        [
+            ""abc"", 3, 0123456789, 007, 7,
+            3, 007
+        ] : int,
+    },
+    match i64_ as options1 {
+        0123456789 : zchar,
+        00 : pack,
+    },
+    match zchar as options1 {
+        ""it's"" : matchKey,
+        ""1"" : u128,
+        // `tick` ""quote"" 'q'
+        ""`tick`"" : trueish,
+        255 : crc,
+        // `tick` ""quote"" 'q'
+        // @lengthOf(
+    },
     // trailing space 
 }
 
-root packet string_ {
-}")).
-Eval vm_compute in ("<<<M1848>>>" ++ check (runes_of_ascii "packet T {
-    match Packet as Header {
-        42 : BodyLength,
-        ""// no comment"" : matchKey,
-        ""`tick`"" : crc,
-        [1] : o,
+packet Z9_ {
+    @leftPad('\x00')
+    repeat float32 Packet,
+    @lengthOf(x)
+    string u,
+    @calculatedFrom(""\" ++ [233]%N ++ runes_of_ascii """)
+    zchar[65535] As @lengthOf(BodyLength),
+    string leftPad @calculatedFrom(""a\\""),
+    @rightPad('\x00')
+    // c
+    rootA {
+        repeat Packet {
+            char[10] matchKey `crlf
+                        line`,
+            // a // b
+        },
     },
-}// " ++ [128512]%N ++ runes_of_ascii " emoji
+    match Packet as uint8x {
+        255 : roots,
+        [42, 3, ""\" ++ [233]%N ++ runes_of_ascii """] : repeatCount,
+    },
+    repeat _x `two words`,
+}
 
-packet As {
+MetaData tag {
+    Pad Header,
+}")).
+Eval vm_compute in ("<<<M3697>>>" ++ check (runes_of_ascii "
+root
+
+packet  // a // b
+o
+{
+As 
+@lengthOf(chars ), 	 // c
+    } root
+packet
+
+A {	// c
+
+	match  T
+as 	 // `tick` ""quote"" 'q'
+		lengthOf{
+
+    [  0 
+]
+: Packet
+
+    ,
+    [
+    42
+
+    ]	:	Packet 7
+: options1 
+, 
+65535 : Z9_ ,3:  msg_type// trailing space 
+  , 
+""a	b"":
+	matchKey
+
+    } 
+,repeat
+int {
+
+string  float
+    @lengthOf(msg_type
+    )
+	``
+	,  string_ {
+
+    BodyLength	{
+
+    repeat
+
+    rootA
+
+`100% of %d`  
+  //
+  ,}
+
+    ,
+
+    f32a	// c
+@lengthOf(pack 
+)
+,	repeat
+char[]
+
+    u ,
+	i64_
+
+    {  string  x
+, T `
+`
+,  i8
+lengthOf  ,
+u64 leftPad , }
+,} 
+,  i8
+Packet
+@calculatedFrom( """ ++ [128512]%N ++ runes_of_ascii """ )
+    , 
+}
+,  @calculatedFrom(
+    ""packet"")  f32 _x ,
+    match
+    Pad	as x 
+{ 42:u
+, [
+    4294967296 ]  :
+zchar
+[
+
+    ""\n""
+    ,	""{,}""
+]  : roots , 
+    // `tick` ""quote"" 'q'
+//x
+
+  007 // packet A { u8 x, }
+	: // trailing space 
+A , [ // 50% %s
+
+  0  //
+
+]
+
+: charz	,[ ""a	b"" ,
+    10
+
+    ]
+    : 
+i64_
+    ,
+
+    }
+
+    , char[]	i64_ 
+,
+
+repeat
+
+metadata
+,} ")).
+Eval vm_compute in ("<<<M4477>>>" ++ check (runes_of_ascii "
+options { int
+	=
+'\x00'  f32a
+    =
+
+    '\x00'	}packet// 50% %s
+  _x
+{	@lengthOf(
+	trueish  )	match charz
+
+as 
+Pad
+	{ ""abc""
+	:
+	float , 
+    //	t
+	// 50% %s
+  42
+:// c
+pack,10:	// packet A { u8 x, }
+
+rootA
+
+, } , }  packet
+
+roots  {
+    string f32a@lengthOf(
+	metadata
+) 
+`" ++ [28040; 24687; 31867; 22411]%N ++ runes_of_ascii "` 
+, 	 // " ++ [128512]%N ++ runes_of_ascii " emoji
+repeatCount
+
+    {
+repeat
+u	,
+
+    f64 BodyLength
+    ,uint8
+    o
+    @calculatedFrom(""\n"" 
+) , 
+repeat Z9_
+
+// packet A { u8 x, }
+  /// triple
+	  , // c
+	  }
+    ,
+
+    f64	a1	@calculatedFrom(
+""abc""
+	)`{ , }`	,
+
+@calculatedFrom( ""\" ++ [233]%N ++ runes_of_ascii """)len
+    calculatedFrom
+
+``,
+
+    @lengthOf(
+msg_type)
+	string
+A	`" ++ [233]%N ++ runes_of_ascii "` 	 // packet A { u8 x, }
+    ,@lengthOf(float
+    ) 
+@tag(	4294967296
+) 
+@calculatedFrom( ""// no comment"") 
+zchar[
+
+0
+]
+
+    Foo `a\` 
+,
+	@tag(
+    255)
+repeat
+zchar[ 
+255 ]i8i8 `doc`
+,
+    // c
+    i32
+	i8i8 ,	// `tick` ""quote"" 'q'
+	} 
+root packet
+
+metadata
+// 50% %s
+  /// triple
+    	{
+	zchar[
+    3
+
+] 
+body 
+`it's` ,}
+")).
+Eval vm_compute in ("<<<M1336>>>" ++ check (runes_of_ascii "options
+{x_y_z = 0123456789} root
+    // 50% %s
+    packet repeatCount{repeat
+roots {match stringy as crc { 4294967296
+:
+    metadata
+    , ""abc"" : leftPad} ,
+zchar[	7 ] As `u8 x,` ,repeat Header { // @lengthOf(
+zchar[
+1// " ++ [27880; 37322]%N ++ runes_of_ascii "
+] chars
+    @lengthOf(repeatCount )
+, repeat roots `doc`,
+} //	t
+,  As ,} ,
+    int16 packetx `// not a comment`  ,
+@tag(
+00 )metadata @calculatedFrom(""packet"" ) // c
+,@calculatedFrom(""" ++ [128512]%N ++ runes_of_ascii """ // `tick` ""quote"" 'q'
+) u32
+    // 50% %s
+    u128
+    // packet A { u8 x, }
+    , match uint8x as T {
+    // @lengthOf(
+    ""\n""
+: packetx}, //	t
+len
+`" ++ [233]%N ++ runes_of_ascii "`
+    , @lengthOf(options1)  match trueish as //
+Z9_ { 1 : BodyLength ,// trailing space 
+00 : Pad
+// c
+// `tick` ""quote"" 'q'
+}
+, @tag( 0123456789  ) char[ 3
+    /// triple
+    ]	_x `line1
+line2` ,
+    int64 pack `line1
+line2`
+    ,
+    //
+    repeat metadata `{ , }`  ,} options
+    {
+    _x =false
+; len =float64//x
+}
+")).
+Eval vm_compute in ("<<<M908>>>" ++ check (runes_of_ascii "packet
+    metadata{ repeat int	{//x
+match // " ++ [27880; 37322]%N ++ runes_of_ascii "
+x_y_z as pack {[""" ++ [233]%N ++ runes_of_ascii "t" ++ [233]%N ++ runes_of_ascii """
+    , 3 ] : roots ,3  :
+Foo
+    , ""`tick`"": zchar, } , uint16 i8i8//	t
+,// @lengthOf(
+options1
+// packet A { u8 x, }
+// a // b
+`doc`, repeat zchar[ 3 ] roots `
+`,} , i16 // @lengthOf(
+BodyLength
+, } packet
+    stringy { int16  roots
+`` , }packet pack	{ @tag( 1 // trailing space 
+) @lengthOf(Foo )@leftPad( ' ') uint8x@lengthOf(roots
+    ), @calculatedFrom(""\n""	) @calculatedFrom( """ ++ [128512]%N ++ runes_of_ascii """ ) @calculatedFrom(""\" ++ [233]%N ++ runes_of_ascii """
+) match len
+    as	MetaDataX
+    { """ ++ [128512]%N ++ runes_of_ascii """ :  len
+// trailing space 
+// " ++ [128512]%N ++ runes_of_ascii " emoji
+,  [
+""a\""b"" ]	:Foo , 1
+: tag ,
+3 // `tick` ""quote"" 'q'
+: rootA,  [ ""x y""
+    , 255 ]
+    :
+/// triple
+// packet A { u8 x, }
+crc ,}
+, uint32
+    i64_
+// " ++ [128512]%N ++ runes_of_ascii " emoji
+// 50% %s
+@lengthOf(  falsey	) , char[//x
+7 ]metadata
+    //	t
+    , } // a // b
+packet T{ @rightPad (
+'0' )	string options1
+    ,
+    } // c")).
+Eval vm_compute in ("<<<M3547>>>" ++ check (runes_of_ascii "options	{
+	LittleEndian =
+	true  ;
+StringPrefixLenType
+
+=
+u32
+;
+    ArrayPrefixLenType  =	u16 ;
+	}packet Party {
+
+    repeat
+	char[ 1
+]  seqNo ,
+
+    char[]
+Qty
+, zchar[	2
+	]  tag7 ,
+}
+	packet	Logon {  Party , char[]msgKind
+
+,repeat
+
+    char[
+    3 
+]	OrderId ,}root packet Reject {
+zchar[ 5
+    ] lastPx ,
+InFlags86	{
+Party  ,
+
+string 
+OrderId 
+, repeat
+
+    InFlags75 {repeat 
+string Side2
+    ,
+uint8  Flags,	zchar[
+	8
+	]Ref
+	, repeat	char[  4  ]
+    Tail
+
+    ,
+repeat
+	char[
+	1	]
+price , }  ,
+}
+
+,
+    InMsgkind60	{
+
+repeat	string
+
+    lastPx
+
+,
+
+u32 msgKind  ,
+	zchar[9
+
+]tag7, zchar[1
+	]  seqNo ,
+u64
+	OrderId
+	,	}
+	,
+	zchar[ 6 ]
+
+    Note,repeat
+InF148 {
+char[7 
+]
+sym	,  } 
+,
+
+zchar[ 
+9
+    ]
+
+clOrdID ,
+    u8
+
+Ref
+    ,
+	match
+Ref
+
+as Body{ [
+81 ,
+
+118]:Party ,
+104 : 
+Logon	, }
+,
+}")).
+Eval vm_compute in ("<<<M648>>>" ++ check (runes_of_ascii "root packet
+body { @tag( 255) chars calculatedFrom ,
+    //	t
+    @rightPad ( '0' )
+    @calculatedFrom(
+    ""a	b"" // " ++ [128512]%N ++ runes_of_ascii " emoji
+) @rightPad ( )
+stringy @calculatedFrom( ""it's""  )// " ++ [128512]%N ++ runes_of_ascii " emoji
+, repeat string trueish /// triple
+,  @calculatedFrom(
+    // `tick` ""quote"" 'q'
+    """"
+    ) asx
+@lengthOf(	options1 ) ``  , u32 Logon ,float64// 50% %s
+i64_  @lengthOf(
+    metadata ) , @calculatedFrom( ""`tick`"" )chars @lengthOf( len) `say ""hi""` ,
+f32a{
+    /// triple
+    match trueish as
+roots {""1"" : body
+    ""// no comment"": Packet ,[42 , ""it's"" , 0
+    ,""it's"" // " ++ [128512]%N ++ runes_of_ascii " emoji
+] : charz ,""a\""b"": stringy ,}
+// a // b
+//x
+,
+    } , uint8x
+{ zchar[ 10 ] As
+    , },// trailing space 
+@tag( 0123456789 )@rightPad ( '0'
+    ) @calculatedFrom( """")asx @lengthOf(trueish	) , }root packet
+trueish{}
+")).
+Eval vm_compute in ("<<<M101>>>" ++ check (runes_of_ascii "packet options1 {@calculatedFrom( """ ++ [233]%N ++ runes_of_ascii "t" ++ [233]%N ++ runes_of_ascii """ ) o @lengthOf( lengthOf) , repeat Pad Packet,repeat repeatCount {// c
+uint8 len @lengthOf( float ) `say ""hi""` , repeat
+    options1  {repeat char[255]u128, } , // 50% %s
+} , match Logon as
+// `tick` ""quote"" 'q'
+// packet A { u8 x, }
+options1
+{ //
+3:pack
+,
+// trailing space 
+// 50% %s
+""CRC32"":
+// @lengthOf(
+//x
+string_ ,
+0  :f32a , 42 : u8x ""it's"" : matchKey
+// a // b
+// `tick` ""quote"" 'q'
+}
+, } packet  metadata { @tag(
+    00 )
+    // a // b
+    repeat u8x{ repeat uint32
+rootA
+    ,
+repeat char MetaDataX,
+    match As
+as roots {
+    // @lengthOf(
+    ""a\\"" :
+    Foo ,0 // a // b
+:body	, 1 : u128 ,}
+,},@rightPad	(' '
+) a1 i64_ // 50% %s
+, } MetaData
+// 50% %s
+// @lengthOf(
+chars {trueish len, }")).
+Eval vm_compute in ("<<<M4059>>>" ++ check (runes_of_ascii "root packet float {
+    char[42] charz @calculatedFrom(""" ++ [233]%N ++ runes_of_ascii "t" ++ [233]%N ++ runes_of_ascii """) `// not a comment`,
+    match packetx as chars {
+        ""it's"" : options1,
+        [65535] : Pad,
+        ""// no comment"" : msg_type,
+        [""// no comment""] : Logon,
+        //x
+        ""a\\"" : Pad,
+    },
+    options1 {
+        int16 matchKey `tab	here`,
+        zchar[007] body,
+    },
+    @tag(3)
+    @leftPad(' ')
+    a1 @calculatedFrom(""a\\""),
+    string Logon @calculatedFrom(""" ++ [233]%N ++ runes_of_ascii "t" ++ [233]%N ++ runes_of_ascii """) `doc`,
+    lengthOf {
+        trueish float,
+        x_y_z `a\`,
+    },
+    repeat string Foo,
+    repeat metadata i8i8 `tab	here`,
+    @calculatedFrom(""a	b"")
+    char[] charz @calculatedFrom(""""),
+}
+
+packet f32a {
+    chars f32a `doc`,
 }
 
 options {
-    u128 = ' '
-    body = char[]
 }")).
-Eval vm_compute in ("<<<M493>>>" ++ check (runes_of_ascii "options
-{
-matchKey = 42/// triple
-x='0' ;
+Eval vm_compute in ("<<<M382>>>" ++ check (runes_of_ascii "root	packet lengthOf { @lengthOf(
+    a1 ) @tag(
+    0 ) @calculatedFrom(
+//	t
+// `tick` ""quote"" 'q'
+""""
+) repeat f32a  {
+zchar[ 0 ] T ,
+    i64 lengthOf @calculatedFrom( """ ++ [128512]%N ++ runes_of_ascii """
+) `100% of %d`  ,
+stringy ,} ,} MetaData As // a // b
+{ f64
+    repeatCount `it's`, }
+MetaData
+/// triple
 // packet A { u8 x, }
-//
-charz
-=
-// packet A { u8 x, }
-// trailing space 
-true  ; } MetaData BodyLength
-{
-uint8
-pack,zchar[ ]1 float ,  float32 x_y_z `` ,u32
-_x,i16 body  , }
-")).
-Eval vm_compute in ("<<<M468>>>" ++ check (runes_of_ascii "options
-{
-matchKey = 42/// triple
-x='0' ;
-// packet A { u8 x, }
-//
-charz
-=
-// packet A { u8 x, }
-// trailing space 
-true  ; } MetaData BodyLength
-uint8
-{
-pack,zchar[ 1]float ,  float32 x_y_z `` ,u32
-_x,i16 body  , }
-")).
-Eval vm_compute in ("<<<M556>>>" ++ check (runes_of_ascii "options
-{
-matchKey = 42/// triple
-x='0' ;
-// packet A { u8 x, }
-//
-charz
-=
-// packet A { u8 x, }
-// trailing space 
-true  ; } MetaData BodyLength
-{
-uint8
-pack,zchar[ 1]float ,  float32 x_y_z `` ,u32
-_x,i16 body   }
-")).
-Eval vm_compute in ("<<<M560>>>" ++ check (runes_of_ascii "options
-{
-matchKey = 42/// triple
-x='0' ;
-// packet A { u8 x, }
-//
-charz
-=
-// packet A { u8 x, }
-// trailing space 
-true  ; } MetaData BodyLength
-{
-uint8
-pack,zchar[ 1]float ,  float32 x_y_z `` ,u32
-_x,i16 body")).
-Eval vm_compute in ("<<<M67>>>" ++ check (runes_of_ascii "MetaData Pad { Z9_
+Pad {
     // c
-    pack ,u8 asx
-    , i32
-    MetaDataX , int8 // `tick` ""quote"" 'q'
-x_y_z ,u128 f32a, calculatedFrom calculatedFrom
-    `say ""hi""`  ,
-    // trailing space 
-    }
+    string Packet , falsey charz
+`it's` , matchKey o ,
+int32 leftPad
+    , float64 string_ , }// " ++ [128512]%N ++ runes_of_ascii " emoji
+root packet charz// 50% %s
+{ @tag( 3
+) @rightPad ( ' '
+    ) @rightPad( '0' )	packetx	`doc` ,  @calculatedFrom( """ ++ [233]%N ++ runes_of_ascii "t" ++ [233]%N ++ runes_of_ascii """)	repeat char[
+00] packetx , @leftPad (
+    // a // b
+    ) string	calculatedFrom, match
+u as	repeatCount	{""it's"" : falsey	} , }")).
+Eval vm_compute in ("<<<M4550>>>" ++ check (runes_of_ascii "options {
+    o = i16;
+    roots = 255;
+    rootA = char[];
+    options1 = u32;
+    zchar = ""`tick`"";
+}
+
+root packet options1 {
+    repeat int64 BodyLength,
+    match len as uint8x {
+        ""a	b"" : lengthOf,
+        ""\" ++ [233]%N ++ runes_of_ascii """ : pack,
+        [
+            ""x y"", ""packet"", """ ++ [128512]%N ++ runes_of_ascii """, ""\" ++ [233]%N ++ runes_of_ascii """, 255,
+            ""{,}""
+        ] : lengthOf,
+        [
+            ""abc"", 00, ""a\\"", ""// no comment"", 00,
+            007, 0, ""packet""
+        ] : Packet,
+    },
+    @leftPad()
+    u i64_,
+    repeat Z9_ {
+        match f32a as Packet {
+            """ ++ [28040; 24687]%N ++ runes_of_ascii """ : chars,
+        },// trailing space 
+    },
+}
+
+packet a1 {
+    int16 msg_type `it's`,
+    repeat uint16 stringy,
+}")).
+Eval vm_compute in ("<<<M57>>>" ++ check (runes_of_ascii "// " ++ [27880; 37322]%N ++ runes_of_ascii "
+packet //
+crc
+    // " ++ [27880; 37322]%N ++ runes_of_ascii "
+    { charz//x
+stringy
+    `u8 x,`, // c
+@lengthOf( metadata )
+    repeat matchKey { Logon @calculatedFrom(  ""it's"") `crlf
+line` , i64 len ,  } // " ++ [128512]%N ++ runes_of_ascii " emoji
+,zchar[ 255] calculatedFrom //	t
+`tab	here`
+, repeat Pad  { match
+options1 as
+    Header { ""\n""
+    : Logon // trailing space 
+, 255 :	pack
+    , 10 : //
+crc ,[007, 4294967296// c
+, 255 , // a // b
+""\n"" ]:repeatCount	00	:
+    crc ,
+    ""a\\"" :	chars }
+,x {	_x _x , zchar[0 ]tag @lengthOf( body
+    )
+`` , }, zchar[
+    // " ++ [27880; 37322]%N ++ runes_of_ascii "
+    65535
+] msg_type ,  repeat
+// " ++ [27880; 37322]%N ++ runes_of_ascii "
+// " ++ [128512]%N ++ runes_of_ascii " emoji
+u16	A
+    `doc` ,} , i8 x`a\`
+    , repeat x { o , } ,}
 ")).
-Eval vm_compute in ("<<<M1892>>>" ++ check (runes_of_ascii "packet Header //	t
-		{ float32  repeatCount @lengthOf( f32a 
-    /// triple
-  // a // b
-  ),
+Eval vm_compute in ("<<<M3578>>>" ++ check (runes_of_ascii "options {
+    // c1
+LittleEndian // c2
+=
+    // c3
+true // c4a
+  // c4b
+; } packet // c7a
+  // c7b
+Sub // c8a
+  // c8b
+{ // c9a
+  // c9b
+u8 // c10
+a , // c12
+@calculatedFrom( ""CRC16"" // c14a
+  // c14b
+) i16 // c16
+SubSum , } // c19
+root
+    // c20
+packet
+    // c21
+Frame // c22
+{ // c23a
+  // c23b
+u16 // c24
+MsgType // c25a
+  // c25b
+, // c26
+u16 BodyLen @lengthOf( // c29
+Body // c30a
+  // c30b
+) , // c32
+Sub Body , string // c36
+note // c37
+,
+    // c38
+@calculatedFrom( ""CRC16"" ) // c41
+i16 Checksum // c43a
+  // c43b
+, u8 // c45
+tail // c46
+, // c47a
+  // c47b
+} // c48a
+  // c48b
+")).
+Eval vm_compute in ("<<<M434>>>" ++ check (runes_of_ascii "packet o{
+/// triple
+// " ++ [27880; 37322]%N ++ runes_of_ascii "
+metadata crc,
+@tag( 3	)@calculatedFrom(	""it's"") @tag(7) repeat
+    uint64 MetaDataX , i16 u8x `100% of %d`,
+    zchar[ 00] A , Pad
+    As , }
+root packet T  {} packet o { repeat
+    len {Z9_,
+    // a // b
+    } ,	repeat chars{ repeat zchar[ 65535 ] int , char[0 ] x  @lengthOf(
+repeatCount
+    ), body  ,
+    } , /// triple
+string matchKey `" ++ [233]%N ++ runes_of_ascii "`
+// @lengthOf(
+//	t
+, Header// a // b
+@calculatedFrom(
+""" ++ [233]%N ++ runes_of_ascii "t" ++ [233]%N ++ runes_of_ascii """ )
+// @lengthOf(
+/// triple
+, @tag( 0123456789) @tag(255
+    ) char
+len// " ++ [128512]%N ++ runes_of_ascii " emoji
+, // " ++ [128512]%N ++ runes_of_ascii " emoji
+body matchKey
+    `u8 x,` ,
+    }")).
+Eval vm_compute in ("<<<M1197>>>" ++ check (runes_of_ascii "root
+packet //x
+matchKey { // " ++ [27880; 37322]%N ++ runes_of_ascii "
+}root
+    packet string_  { Z9_ { zchar[ 1
+] Packet//x
+,  f64 x@calculatedFrom(
+// trailing space 
+//	t
+""a	b""// 50% %s
+) `" ++ [233]%N ++ runes_of_ascii "` ,
+    } ,} MetaData int {
+uint32 x
+`doc`
+    ,  } MetaData MetaDataX
+{ uint32
+calculatedFrom `a\`
+,
+f64
+    calculatedFrom
+    `" ++ [28040; 24687; 31867; 22411]%N ++ runes_of_ascii "` ,
+    u16
+Foo , lengthOf
+metadata	, char[ 65535 ] matchKey
+    // `tick` ""quote"" 'q'
+    ,
+//
+//x
+char[
+7] charz
+`// not a comment`
+, } options{zchar  = ""x y""
+; repeatCount
+/// triple
+// @lengthOf(
+= false	lengthOf =	007 // packet A { u8 x, }
+;}")).
+Eval vm_compute in ("<<<M4517>>>" ++ check (runes_of_ascii "options
+{Pad
+    =
+
+    true
+;// " ++ [27880; 37322]%N ++ runes_of_ascii "
+  }  root
+
+packet
+    u128
+	{ repeat
+    zchar[
+
+    0123456789 ]
+x ,
+    @calculatedFrom(
+
+    """ ++ [28040; 24687]%N ++ runes_of_ascii """)
+
+    @tag(
+    7 ) i32
+
+    Logon 
+	    // a // b
+	,
+    matchKey
+u128
+`100% of %d`
+
+    , repeat lengthOf 
+As
+`100% of %d`,match  x_y_z as
+As
+{	""x y"" 
+:	stringy
+,
+	""" ++ [233]%N ++ runes_of_ascii "t" ++ [233]%N ++ runes_of_ascii """
+	: 
+  //
+    Logon
+, [
+
+    65535
+, 
+007
+] : Pad
+    ,
+
+}
+	,
+f32 leftPad 
+, 
+	// trailing space 
+	  @rightPad 
+      // " ++ [128512]%N ++ runes_of_ascii " emoji
+
+//x
+	(
+
+)char[]uint8x 
+@lengthOf( Foo
+
+    )
+`it's`
+    ,
+}
+
+")).
+Eval vm_compute in ("<<<M3429>>>" ++ check (runes_of_ascii "// top
+options
+    // c0
+{
+    // c1
+}
+    // c2
+options
+    // c3
+{
+    // c4
+string_
+    // c5
+=
+    // c6
+false
+    // c7
+;
+    // c8
+msg_type
+    // c9
+=
+    // c10
+""1""
+    // c11
+;
+    // c12
+}
+    // c13
+MetaData
+    // c14
+lengthOf
+    // c15
+{
+    // c16
+zchar[
+    // c17
+4294967296
+    // c18
+]
+    // c19
+Z9_
+    // c20
+,
+    // c21
+uint8
+    // c22
+i8i8
+    // c23
+`two words`
+    // c24
+,
+    // c25
+char[
+    // c26
+7
+    // c27
+]
+    // c28
+charz
+    // c29
+,
+    // c30
+}
+    // c31
+")).
+Eval vm_compute in ("<<<M405>>>" ++ check (runes_of_ascii "  root
+    packet //	t
+options1 { // packet A { u8 x, }
+i64_@lengthOf(	matchKey ) , u64	Logon
+`a\` ,@lengthOf( a1
+    ) @calculatedFrom( ""\" ++ [233]%N ++ runes_of_ascii """ ) repeat// 50% %s
+float32 _x ,
+@calculatedFrom(""// no comment"" )
+@tag(
+7 ) @calculatedFrom(
+""abc"" //
+)
+    int16 options1 @calculatedFrom(""CRC32"" ), } MetaData o {
+char// @lengthOf(
+x_y_z `{ , }`
+//	t
+//	t
+, zchar
+string_ ,// `tick` ""quote"" 'q'
+char[]
+    int`it's`  ,crc charz, options1
+    _x
+    ,
+char[] BodyLength `` , }
+")).
+Eval vm_compute in ("<<<M4321>>>" ++ check (runes_of_ascii "
+options {
+	}	root
+packet 
+repeatCount 
+{
+
+    @lengthOf(	calculatedFrom // packet A { u8 x, }
+    )float @calculatedFrom(  ""a\\"")
+,
+
+    zchar[007
+]	zchar
+
+`" ++ [28040; 24687; 31867; 22411]%N ++ runes_of_ascii "` ,
+    @tag(	3  )
+    uint32  BodyLength	@calculatedFrom(
+
+""a\\"")
+`
+`
+, @calculatedFrom(  ""1""	) uint64 leftPad  , 
+@rightPad
+( 
+'\x00' )
+
+    @rightPad
+
+('\x00')repeat
+u128	, 
 } 
 options
-{ 
-As = true
-    ;
-	}packet  Pad{@rightPad
-    (
+{
 
-    ' ')
+    }  MetaData MetaDataX
+    { msg_type
 
-    leftPad ,} ")).
-Eval vm_compute in ("<<<M704>>>" ++ check (runes_of_ascii "// c
-packet i64_ {	char[] calculatedFrom , } packet
-trueish  {""a\\""
-@calculatedFrom( ) o { i32 falsey@lengthOf( uint8x ),
-} , } // `tick` ""quote"" 'q'
-options {// c
-Z9_ = ' '//
+    Z9_
+
+`u8 x,`
+
+,
+string
+Logon
+    , } ")).
+Eval vm_compute in ("<<<M718>>>" ++ check (runes_of_ascii "
+packet// a // b
+repeatCount { @rightPad  () u128 ,
+u128 @calculatedFrom( ""a	b""// " ++ [27880; 37322]%N ++ runes_of_ascii "
+) , repeat
+    falsey ,int @lengthOf( charz  )
+    ,	calculatedFrom`say ""hi""`, }	packet
+//	t
+//
+falsey
+// @lengthOf(
+// trailing space 
+{ len { x_y_z
+{
+i16 options1
+    @lengthOf( asx ) `a\`
+    ,
+    } ,	}
+,  } packet Foo //	t
+{
+    uint8x @calculatedFrom(
+    ""packet"" ) , } packet  MetaDataX {zchar[ 4294967296] Header
+`// not a comment` ,	} // " ++ [27880; 37322]%N)).
+Eval vm_compute in ("<<<M246>>>" ++ check (runes_of_ascii "MetaData Z9_ { stringy // 50% %s
+chars `" ++ [28040; 24687; 31867; 22411]%N ++ runes_of_ascii "` ,  uint32 leftPad// @lengthOf(
+`
+` ,	u128 stringy `crlf
+line`, // c
+u16 packetx	, } packet len { } root packet matchKey{ match
+Header as	f32a	{ 0123456789
+: lengthOf ,
+    [ ""`tick`""
+    // a // b
+    ,
+""packet"" , """ ++ [233]%N ++ runes_of_ascii "t" ++ [233]%N ++ runes_of_ascii """ ]: repeatCount , [ // " ++ [27880; 37322]%N ++ runes_of_ascii "
+4294967296, ""// no comment"", 7 ] : Packet 00 : options1 ,
+    007	:trueish  ,""" ++ [28040; 24687]%N ++ runes_of_ascii """
+:i8i8
+, }
+//
+//x
+,
+    }
+    options{
 }
+//
 ")).
-Eval vm_compute in ("<<<M1382>>>" ++ check (runes_of_ascii "packet A {
-    u8 a,
+Eval vm_compute in ("<<<M4469>>>" ++ check (runes_of_ascii "options {
+    // c1
+    LittleEndian = true;
 }
-packet B {
-    u16 b,
-}
-root packet P {
-    u8 K1,
-    u8 K2,
-    match K1 as M1 {
-        1 : A,
-    },
-    match K2 as M2 {
-        1 : B,
-    },
-}
-")).
-Eval vm_compute in ("<<<M485>>>" ++ check (runes_of_ascii "options
-{
-matchKey = 42/// triple
-x='0' ;
-// packet A { u8 x, }
-//
-charz
-=
-// packet A { u8 x, }
-// trailing space 
-true  ; } MetaData BodyLength
-{
-uint8
-pack")).
-Eval vm_compute in ("<<<M470>>>" ++ check (runes_of_ascii "options
-{
-matchKey = 42/// triple
-x='0' ;
-// packet A { u8 x, }
-//
-charz
-=
-// packet A { u8 x, }
-// trailing space 
-true  ; } MetaData BodyLength")).
-Eval vm_compute in ("<<<M465>>>" ++ check (runes_of_ascii "options
-{
-matchKey = 42/// triple
-x='0' ;
-// packet A { u8 x, }
-//
-charz
-=
-// packet A { u8 x, }
-// trailing space 
-true  ; } MetaData")).
-Eval vm_compute in ("<<<M599>>>" ++ check (runes_of_ascii "MetaData
-    // trailing space 
-    matchKey
+
+packet Sub {
+    // c9a
+    // c9b
+    u8 a,// c12
+    @calculatedFrom(""CRC16"")
+    i16 SubSum,
+}// c19
+
+root packet Frame {
+    // c23a
+    // c23b
+    u16 MsgType,// c26
+    u16 BodyLen @lengthOf(Body),// c32
+    Sub Body,
+    string note,
+    // c38
+    @calculatedFrom(""CRC16"")
+    // c41
+    i16 Checksum,
+    u8 tail,// c47a
+    // c47b
+}// c48a
+// c48b")).
+Eval vm_compute in ("<<<M214>>>" ++ check (runes_of_ascii "MetaData len	{	char[
+    42 ]
+T
+`
+`
+    ,
+char[ 4294967296	] asx	`" ++ [233]%N ++ runes_of_ascii "` ,float64 Z9_ ,
+    msg_type falsey//
 `line1
-line2` u64 chars // a // b
-,char[] lengthOf `// not a comment`
-    , //	t
+line2` ,
+    char // c
+charz , // a // b
+} MetaData
+// trailing space 
+//
+calculatedFrom { char[ 7  ]	a1
+    ,
+// trailing space 
+// " ++ [27880; 37322]%N ++ runes_of_ascii "
+float	msg_type , char[ 007 ]u	`crlf
+line` ,string stringy
+`" ++ [28040; 24687; 31867; 22411]%N ++ runes_of_ascii "` , // @lengthOf(
+zchar[ 00 ]chars  , char[ 00/// triple
+]  string_ ,}
+")).
+Eval vm_compute in ("<<<M423>>>" ++ check (runes_of_ascii "  MetaData
+body {pack MetaDataX
+    , } packet
+    x_y_z { @rightPad( ) @calculatedFrom( ""packet""
+    )
+@lengthOf(	chars ) uint32 As,  @calculatedFrom( ""{,}"" )
+trueish , @tag( 007 )
+    match Pad as
+    zchar { 255// " ++ [27880; 37322]%N ++ runes_of_ascii "
+:// @lengthOf(
+string_ , [ ""`tick`"",  """ ++ [233]%N ++ runes_of_ascii "t" ++ [233]%N ++ runes_of_ascii """,
+0123456789 ,
+    // " ++ [27880; 37322]%N ++ runes_of_ascii "
+    00  ] :
+crc , // @lengthOf(
+[
+255,
+    10 ,
+0123456789
+,""abc""
+] : Packet ,
+}, }
+")).
+Eval vm_compute in ("<<<M728>>>" ++ check (runes_of_ascii "packet uint8x {
+match Header as
+// a // b
+//	t
+chars { [ ""\n"" ] :
+    calculatedFrom , 0
+:
+pack,
+    } ,} root
+packet asx
+{ } packet
+Foo // " ++ [128512]%N ++ runes_of_ascii " emoji
+{
+@lengthOf( msg_type ) @rightPad
+(
+' '
+    )
+    @tag(  007
+    // `tick` ""quote"" 'q'
+    )// `tick` ""quote"" 'q'
+repeat u32
+    /// triple
+    len `say ""hi""`
+, } packet float { zchar[ 42] Packet `tab	here` , }")).
+Eval vm_compute in ("<<<M625>>>" ++ check (runes_of_ascii "MetaData Z9_ // 50% %s
+{ string Foo
+, } packet stringy {
+    @tag(
+// `tick` ""quote"" 'q'
+// 50% %s
+0 ) zchar[
+00] stringy`" ++ [28040; 24687; 31867; 22411]%N ++ runes_of_ascii "` //x
+,
+} MetaData len{ u64	pack
+`say ""hi""`,chars metadata , zchar[ 255
+] MetaDataX `say ""hi""` ,
+    }options
+    { u8x =
+string lengthOf
+    =
+u16 ;
+Z9_	='\x00'
+    ; repeatCount
+    =""// no comment"" } packet
+As { }
+")).
+Eval vm_compute in ("<<<M4075>>>" ++ check (runes_of_ascii "
+
+  options	{ 
+}
+packet 
+stringy  {
+    @rightPad (
+
+    '\x00')
+    chars//x
+	@lengthOf( float
+
+)
+
+    ,
+@lengthOf( Packet)  // " ++ [128512]%N ++ runes_of_ascii " emoji
+zchar
+	@calculatedFrom(
+//
+    // `tick` ""quote"" 'q'
+  ""a\""b"")
+	,
+@leftPad
+(
+) x_y_z  rootA
+
+    `100% of %d`
+,
+	}// trailing space 
+options
+{lengthOf=
+
+'\x00' ;  charz
+=
+true
+;	}")).
+Eval vm_compute in ("<<<M4015>>>" ++ check (runes_of_ascii "// top
+MetaData Pad {
+    // c2
+    x_y_z a1,// c5
+    int8 trueish `two words`,// c9
+    char[] x_y_z `{ , }`,// c13
+    zchar[1] pack `
+        `,// c19
+    len i64_,// c22
+}// c23
+
+MetaData crc {
+    // c26
+    zchar[7] Z9_,// c31
+    char[] options1,// c34
+    uint32 options1,// c37
+    u MetaDataX,// c40
+}// c41")).
+Eval vm_compute in ("<<<M4338>>>" ++ check (runes_of_ascii "
+options
+{i8i8	// @lengthOf(
+	=// " ++ [128512]%N ++ runes_of_ascii " emoji
+  true} packet
+Header {
+@lengthOf( f32a 
+
+// @lengthOf(
+  // @lengthOf(
+  ) 	 // 50% %s
+string
+Header 
+  //
+	`
+`
+    ,
+}
+root 	 // packet A { u8 x, }
+	packet  calculatedFrom
+
+    {@rightPad
+	( )  repeat
+
+matchKey
+string_ // `tick` ""quote"" 'q'
+	,
+}//	t
+")).
+Eval vm_compute in ("<<<M3992>>>" ++ check (runes_of_ascii "//
+root packet Z9_ {
+    @tag(10)
+    u32 A @lengthOf(body),
+    @leftPad()
+    zchar[3] matchKey,
+    repeat lengthOf {
+        u8 asx `two words`,
+    },
+    @tag(0123456789)
+    repeat char[42] rootA `say ""hi""`,
+    stringy `line1
+        line2`,
+    @leftPad(' ')
+    repeat i32 trueish,
 }")).
-Eval vm_compute in ("<<<M1570>>>" ++ check (runes_of_ascii "packet A {
+Eval vm_compute in ("<<<M772>>>" ++ check (runes_of_ascii "root
+packet
+chars {	match pack
+as pack
+    { 255
+: T [ ""abc"" ,
+10 ] :
+rootA  3 : BodyLength ,
+[0 ] : u8x
+    }
+,
+@calculatedFrom( ""// no comment"" ) @leftPad
+('\x00')@tag(  3 )
+BodyLength charz ,
+repeat
+    lengthOf u ,repeat char[ 00 ]	u8x , @tag( 0123456789 )repeat i16
+    x ,}")).
+Eval vm_compute in ("<<<M1982>>>" ++ check (runes_of_ascii "packet	packetx { // trailing space 
+x_y_z
+{
+string
+charz ,
+string x// @lengthOf(
+`two words`
+    ,  u8x { // `tick` ""quote"" 'q'
+charz `100% of %d` // packet A { u8 x, }
+,}// " ++ [27880; 37322]%N ++ runes_of_ascii "
+,} , }
+    // a // b
+    packet metadata {  @leftPad ( '0' '0') repeat i32 options1 ,u64 uint8x , }
+")).
+Eval vm_compute in ("<<<M1984>>>" ++ check (runes_of_ascii "packet	packetx { // trailing space 
+x_y_z
+{
+string
+charz ,
+string x// @lengthOf(
+`two words`
+    ,  u8x { // `tick` ""quote"" 'q'
+charz `100% of %d` // packet A { u8 x, }
+,}// " ++ [27880; 37322]%N ++ runes_of_ascii "
+,} , }
+    // a // b
+    packet metadata {  @leftPad ( uint8) repeat i32 options1 ,u64 uint8x , }
+")).
+Eval vm_compute in ("<<<M1909>>>" ++ check (runes_of_ascii "packet	packetx { // trailing space 
+x_y_z
+{
+string
+charz ,
+string x// @lengthOf(
+`two words`
+    ,  u32 { // `tick` ""quote"" 'q'
+charz `100% of %d` // packet A { u8 x, }
+,}// " ++ [27880; 37322]%N ++ runes_of_ascii "
+,} , }
+    // a // b
+    packet metadata {  @leftPad ( '0') repeat i32 options1 ,u64 uint8x , }
+")).
+Eval vm_compute in ("<<<M1881>>>" ++ check (runes_of_ascii "packet	packetx { // trailing space 
+x_y_z
+{
+string
+charz 
+string x// @lengthOf(
+`two words`
+    ,  u8x { // `tick` ""quote"" 'q'
+charz `100% of %d` // packet A { u8 x, }
+,}// " ++ [27880; 37322]%N ++ runes_of_ascii "
+,} , }
+    // a // b
+    packet metadata {  @leftPad ( '0') repeat i32 options1 ,u64 uint8x , }
+")).
+Eval vm_compute in ("<<<M2011>>>" ++ check (runes_of_ascii "packet	packetx { // trailing space 
+x_y_z
+{
+string
+charz ,
+string x// @lengthOf(
+`two words`
+    ,  u8x { // `tick` ""quote"" 'q'
+charz `100% of %d` // packet A { u8 x, }
+,}// " ++ [27880; 37322]%N ++ runes_of_ascii "
+,} , }
+    // a // b
+    packet metadata {  @leftPad ( '0') repeat i32 options1 , uint8x , }
+")).
+Eval vm_compute in ("<<<M3939>>>" ++ check (runes_of_ascii "packet string_ {
+    @calculatedFrom(""" ++ [128512]%N ++ runes_of_ascii """)
+    match charz as calculatedFrom {
+        7 : charz,
+        // 50% %s
+    },
+    @lengthOf(Z9_)
+    uint16 calculatedFrom,
+    match body as chars {
+        """" : lengthOf,
+        255 : Z9_,
+        [0123456789] : asx,
+    },
+}")).
+Eval vm_compute in ("<<<M2115>>>" ++ check (runes_of_ascii "packet// packet A { u8 x, }
+repeatCount	{// packet A { u8 x, }
+@leftPad ( '\x00'
+) repeat u8x MetaDataX `crlf
+line`,
+    repeat
+    char[] char[] MetaDataX
+    ,
+u64	uint8x@calculatedFrom(""a\""b""
+// c
+// packet A { u8 x, }
+) `tab	here`
+,//
+}MetaData pack
+    {
+    }
+")).
+Eval vm_compute in ("<<<M425>>>" ++ check (runes_of_ascii "packet  chars  { Logon `" ++ [28040; 24687; 31867; 22411]%N ++ runes_of_ascii "`,	} packet lengthOf
+{ repeat char[]Header ,match
+// trailing space 
+// packet A { u8 x, }
+T	as
+T
+{ 3 : repeatCount , }
+,
+match tag as pack { ""a	b"" : string_ , } ,zchar[  10 ]a1
+    `two words` , }	options{//
+float  = false ;
+    }
+
+")).
+Eval vm_compute in ("<<<M2198>>>" ++ check (runes_of_ascii "packet// packet A { u8 x, }
+repeatCount	{// packet A { u8 x, }
+@leftPad ( '\x00'
+) re%peat u8x MetaDataX `crlf
+line`,
+    repeat
+    char[] MetaDataX
+    ,
+u64	uint8x@calculatedFrom(""a\""b""
+// c
+// packet A { u8 x, }
+) `tab	here`
+,//
+}MetaData pack
+    {
+    }
+")).
+Eval vm_compute in ("<<<M2111>>>" ++ check (runes_of_ascii "packet// packet A { u8 x, }
+repeatCount	{// packet A { u8 x, }
+@leftPad ( '\x00'
+) repeat u8x MetaDataX `crlf
+line`,
+    char[]
+    repeat MetaDataX
+    ,
+u64	uint8x@calculatedFrom(""a\""b""
+// c
+// packet A { u8 x, }
+) `tab	here`
+,//
+}MetaData pack
+    {
+    }
+")).
+Eval vm_compute in ("<<<M1449>>>" ++ check (runes_of_ascii "packet calculatedFrom
+{ @calculatedFrom( ""a\\"" ) zchar[ 4294967296 4294967296 ]
+calculatedFrom@lengthOf( pack )	`100% of %d` ,char[]body@calculatedFrom( ""// no comment"" )  ,
+@tag( 007) //x
+int8
+leftPad`it's` , repeat pack
+    { repeat char[ 3] body
+,},
+}")).
+Eval vm_compute in ("<<<M2109>>>" ++ check (runes_of_ascii "packet// packet A { u8 x, }
+repeatCount	{// packet A { u8 x, }
+@leftPad ( '\x00'
+) repeat u8x MetaDataX `crlf
+line`,
+    
+    char[] MetaDataX
+    ,
+u64	uint8x@calculatedFrom(""a\""b""
+// c
+// packet A { u8 x, }
+) `tab	here`
+,//
+}MetaData pack
+    {
+    }
+")).
+Eval vm_compute in ("<<<M1511>>>" ++ check (runes_of_ascii "packet calculatedFrom
+{ @calculatedFrom( ""a\\"" ) zchar[ 4294967296 ]
+calculatedFrom@lengthOf( pack )	`100% of %d` ,char[]body@calculatedFrom( ""// no comment"" false  ,
+@tag( 007) //x
+int8
+leftPad`it's` , repeat pack
+    { repeat char[ 3] body
+,},
+}")).
+Eval vm_compute in ("<<<M1594>>>" ++ check (runes_of_ascii "packet calculatedFrom
+{ @calculatedFrom( ""a\\"" ) zchar[ 4294967296 ]
+calculatedFrom@lengthOf( pack )	`100% of %d` ,char[]body@calculatedFrom( ""// no comment"" )  ,
+@tag( 007) //x
+int8
+leftPad`it's` , repeat pack
+    { repeat char[ 3] body
+, ,},
+}")).
+Eval vm_compute in ("<<<M2142>>>" ++ check (runes_of_ascii "packet// packet A { u8 x, }
+repeatCount	{// packet A { u8 x, }
+@leftPad ( '\x00'
+) repeat u8x MetaDataX `crlf
+line`,
+    repeat
+    char[] MetaDataX
+    ,
+u64	uint8x u64""a\""b""
+// c
+// packet A { u8 x, }
+) `tab	here`
+,//
+}MetaData pack
+    {
+    }
+")).
+Eval vm_compute in ("<<<M1545>>>" ++ check (runes_of_ascii "packet calculatedFrom
+{ @calculatedFrom( ""a\\"" ) zchar[ 4294967296 ]
+calculatedFrom@lengthOf( pack )	`100% of %d` ,char[]body@calculatedFrom( ""// no comment"" )  ,
+@tag( 007) //x
+int8
+leftPad, `it's` repeat pack
+    { repeat char[ 3] body
+,},
+}")).
+Eval vm_compute in ("<<<M1603>>>" ++ check (runes_of_ascii "packet calculatedFrom
+{ @calculatedFrom( ""a\\"" ) zchar[ 4294967296 ]
+calculatedFrom@lengthOf( pack )	`100% of %d` ,char[]body@calculatedFrom( ""// no comment"" )  ,
+@tag( 007) //x
+int8
+leftPad`it's` , repeat pack
+    { repeat char[ 3] body
+,}
+}")).
+Eval vm_compute in ("<<<M1518>>>" ++ check (runes_of_ascii "packet calculatedFrom
+{ @calculatedFrom( ""a\\"" ) zchar[ 4294967296 ]
+calculatedFrom@lengthOf( pack )	`100% of %d` ,char[]body@calculatedFrom( ""// no comment"" )  ,
+ 007) //x
+int8
+leftPad`it's` , repeat pack
+    { repeat char[ 3] body
+,},
+}")).
+Eval vm_compute in ("<<<M1478>>>" ++ check (runes_of_ascii "packet calculatedFrom
+{ @calculatedFrom( ""a\\"" ) zchar[ 4294967296 ]
+calculatedFrom@lengthOf( pack )	 ,char[]body@calculatedFrom( ""// no comment"" )  ,
+@tag( 007) //x
+int8
+leftPad`it's` , repeat pack
+    { repeat char[ 3] body
+,},
+}")).
+Eval vm_compute in ("<<<M1175>>>" ++ check (runes_of_ascii "
+options { i8i8 = ""// no comment""
+    ;
+    lengthOf= false
+// " ++ [128512]%N ++ runes_of_ascii " emoji
+// a // b
+;
+    //x
+    body =
+'\x00'
+    ;T
+= '\x00'
+//	t
+//
+; }	root
+packet	trueish { //x
+string
+body`100% of %d` , repeat u8 u8x
+`line1
+line2` ,}
+")).
+Eval vm_compute in ("<<<M697>>>" ++ check (runes_of_ascii "packet
+lengthOf { } options
+// " ++ [27880; 37322]%N ++ runes_of_ascii "
+// packet A { u8 x, }
+{
+u128 =
+' ' ;msg_type
+=
+    '0' } MetaData body
+    {
+    } options {
+    }
+MetaData falsey { _x//	t
+calculatedFrom `a\` , char[] calculatedFrom `u8 x,` ,
+}
+")).
+Eval vm_compute in ("<<<M947>>>" ++ check (runes_of_ascii "packet
+uint8x { @leftPad
+    ( ' ') string_ trueish `100% of %d`,
+    T A
+    , zchar[ 42 ] string_ @lengthOf( BodyLength
+    ) , @calculatedFrom( ""a\""b"" )
+    repeat
+uint16  u128 `// not a comment`  , } 	 ")).
+Eval vm_compute in ("<<<M436>>>" ++ check (runes_of_ascii "MetaData trueish
+    { stringy BodyLength
+// 50% %s
+// 50% %s
+,
+char[ 007 ]
+    // a // b
+    metadata
+    ,
+float64 zchar,leftPad chars ,u32
+MetaDataX , } options
+{
+lengthOf
+// c
+// c
+= ""a\""b"" }")).
+Eval vm_compute in ("<<<M1207>>>" ++ check (runes_of_ascii "packet
+Foo{ char[]
+//x
+// packet A { u8 x, }
+matchKey `
+`
+, zchar[ 4294967296
+]tag// @lengthOf(
+@calculatedFrom(	""" ++ [233]%N ++ runes_of_ascii "t" ++ [233]%N ++ runes_of_ascii """	) `` , charz@lengthOf( repeatCount
+)
+    // trailing space 
+    , }
+")).
+Eval vm_compute in ("<<<M608>>>" ++ check (runes_of_ascii "
+packet int
+{ }
+    MetaData //
+x{uint16 As
+`tab	here`, }
+packet
+    f32a { @tag( 3 )	char[
+    10
+] lengthOf
+    @calculatedFrom(""a\\"" ) ,
+roots @calculatedFrom( ""it's"" ) `" ++ [28040; 24687; 31867; 22411]%N ++ runes_of_ascii "`, }
+")).
+Eval vm_compute in ("<<<M4123>>>" ++ check (runes_of_ascii "packet o {
+    int Packet,
+    @tag(255)
+    // trailing space 
+    @tag(007)
+    repeat string lengthOf,
+}
+
+packet charz {
+    float float,
+    leftPad @lengthOf(u) `" ++ [28040; 24687; 31867; 22411]%N ++ runes_of_ascii "`,
+}")).
+Eval vm_compute in ("<<<M2382>>>" ++ check (runes_of_ascii "
+packet MetaDataX
+{
+    @leftPad
+( // a // b
+'0'
+) i8 u @lengthOf(
+MetaDataX
+    ) `say ""hi""` `say ""hi""` ,	} MetaData BodyLength {
+    asx
+x_y_z `" ++ [233]%N ++ runes_of_ascii "`
+, uint64 u128 , }
+")).
+Eval vm_compute in ("<<<M1031>>>" ++ check (runes_of_ascii "MetaData i8i8 { i64
+    chars `two words` , int32 repeatCount
+    `u8 x,` ,
+    float options1, i64 tag,
+    char[]
+As`{ , }`
+, Foo /// triple
+roots
+`it's`
+,
+}
+")).
+Eval vm_compute in ("<<<M1646>>>" ++ check (runes_of_ascii "options { float32 packet Packet{char[] i64_ ,
+@tag(
+    255) match
+crc as i8i8{""{,}"" : trueish """" : Pad , ""a\\"" :
+Foo ,
+    1 :packetx
+, """ ++ [128512]%N ++ runes_of_ascii """ : trueish , } , }")).
+Eval vm_compute in ("<<<M2412>>>" ++ check (runes_of_ascii "
+packet MetaDataX
+{
+    @leftPad
+u64 // a // b
+'0'
+) i8 u @lengthOf(
+MetaDataX
+    ) `say ""hi""` ,	} MetaData BodyLength {
+    asx
+x_y_z `" ++ [233]%N ++ runes_of_ascii "`
+, uint64 u128 , }
+")).
+Eval vm_compute in ("<<<M1733>>>" ++ check (runes_of_ascii "options { } packet Packet{char[] i64_ ,
+@tag(
+    255) match
+crc as i8i8{""{,}"" : trueish """" """" : Pad , ""a\\"" :
+Foo ,
+    1 :packetx
+, """ ++ [128512]%N ++ runes_of_ascii """ : trueish , } , }")).
+Eval vm_compute in ("<<<M1723>>>" ++ check (runes_of_ascii "options { } packet Packet{char[] i64_ ,
+@tag(
+    255) match
+crc as i8i8{""{,}"" : : trueish """" : Pad , ""a\\"" :
+Foo ,
+    1 :packetx
+, """ ++ [128512]%N ++ runes_of_ascii """ : trueish , } , }")).
+Eval vm_compute in ("<<<M4459>>>" ++ check (runes_of_ascii "MetaData o {
+}
+
+MetaData x {
+    body Pad,
+    char[] Logon,
+}
+
+options {
+    msg_type = string;
+    o = ""it's"";
+    packetx = ""it's""
+    f32a = ""packet"";
+}")).
+Eval vm_compute in ("<<<M1669>>>" ++ check (runes_of_ascii "options { } packet Packet{char[] , i64_
+@tag(
+    255) match
+crc as i8i8{""{,}"" : trueish """" : Pad , ""a\\"" :
+Foo ,
+    1 :packetx
+, """ ++ [128512]%N ++ runes_of_ascii """ : trueish , } , }")).
+Eval vm_compute in ("<<<M1819>>>" ++ check (runes_of_ascii "options { } packet Packet{char[] i64_ ,
+@tag(
+    255) match
+crc as i8i8{""{,}"" : trueish """" : Pad , ""a\\"" :
+Foo ,
+    1 :packetx
+, """ ++ [128512]%N ++ runes_of_ascii """ : trueish , } } ,")).
+Eval vm_compute in ("<<<M1846>>>" ++ check (runes_of_ascii "options { } packet na" ++ [239]%N ++ runes_of_ascii "ve{char[] i64_ ,
+@tag(
+    255) match
+crc as i8i8{""{,}"" : trueish """" : Pad , ""a\\"" :
+Foo ,
+    1 :packetx
+, """ ++ [128512]%N ++ runes_of_ascii """ : trueish , } , }")).
+Eval vm_compute in ("<<<M1695>>>" ++ check (runes_of_ascii "options { } packet Packet{char[] i64_ ,
+@tag(
+    255) u8
+crc as i8i8{""{,}"" : trueish """" : Pad , ""a\\"" :
+Foo ,
+    1 :packetx
+, """ ++ [128512]%N ++ runes_of_ascii """ : trueish , } , }")).
+Eval vm_compute in ("<<<M4491>>>" ++ check (runes_of_ascii "packet A {
     match k as n {
         [
-            1, 22, 007, 4, 5,
-            66
+            ""a"", ""bb"", 007, ""d"", ""e"",
+            66, ""g"", ""h"", 9, ""j""
         ] : B,
         2 : C,
     },
 }")).
-Eval vm_compute in ("<<<M637>>>" ++ check (runes_of_ascii "MetaData
-    // trailing space 
-    matchKey
-{ u64 chars // a // b
-,char[] lengthOf `// not a comment`
-    , //	t
-} }")).
-Eval vm_compute in ("<<<M598>>>" ++ check (runes_of_ascii "MetaData
-    // trailing space 
-    matchKey
-u64 { chars // a // b
-,char[] lengthOf `// not a comment`
-    , //	t
-}")).
-Eval vm_compute in ("<<<M1540>>>" ++ check (runes_of_ascii "
-
-  packet
-Logon{@tag( 
-42
-)
-
-@rightPad // c
-	  ( ' '  )  @leftPad(
-)  repeat
-trueish
-	{
-    string
-	T	,
-
-} ,}
-")).
-Eval vm_compute in ("<<<M624>>>" ++ check (runes_of_ascii "MetaData
-    // trailing space 
-    matchKey
-{ u64 chars // a // b
-,char[] ( `// not a comment`
-    , //	t
-}")).
-Eval vm_compute in ("<<<M901>>>" ++ check (runes_of_ascii "packet A {
-  match k as n {
-    [""a"", ""bb"", 007, ""d"", ""e"", 66, ""g"", ""h"", 9, ""j"", ""k""] : B
-    2 : C
-  },
-}")).
-Eval vm_compute in ("<<<M1259>>>" ++ check (runes_of_ascii "packet calculatedFrom { @tag( // c
-4294967296 ) u msg_type , char[ 3 ] crc @lengthOf( len ) `u8 x,` , }")).
-Eval vm_compute in ("<<<M1539>>>" ++ check (runes_of_ascii "options {
-    matchKey = 42/// triple
-    x = '0';
-    // packet A { u8 x, }
-    //
-    charz = true;
-}")).
-Eval vm_compute in ("<<<M2015>>>" ++ check (runes_of_ascii "
-
-  packet	Inner {u8
-a
-,
-
-    }
-root  packet P 
+Eval vm_compute in ("<<<M1143>>>" ++ check (runes_of_ascii "  MetaData A{ }	options
 {
-
-    repeat
-Inner
-items
-
-    ,
-u8	x
-,}
-")).
-Eval vm_compute in ("<<<M1137>>>" ++ check (runes_of_ascii "packet Logon { @tag(
-// c
-42 ) @rightPad ( ' ' ) @leftPad ( ) repeat trueish { string T , } , }")).
-Eval vm_compute in ("<<<M1169>>>" ++ check (runes_of_ascii "packet Logon { @tag( 42 ) @rightPad ( ' ' ) @leftPad ( ) repeat trueish { string T , }
-// c
-, }")).
-Eval vm_compute in ("<<<M1619>>>" ++ check (runes_of_ascii "packet A {
+    roots	=
+    ""a\""b"" ;
+    crc	= 65535
+;
+float
+=
+' '  ;
+} MetaData
+repeatCount { /// triple
+float packetx
+`" ++ [233]%N ++ runes_of_ascii "` ,  }")).
+Eval vm_compute in ("<<<M298>>>" ++ check (runes_of_ascii "MetaData repeatCount
+{float32	string_ `" ++ [28040; 24687; 31867; 22411]%N ++ runes_of_ascii "` ,trueish matchKey ,metadata
+chars
+,int64 float // `tick` ""quote"" 'q'
+, } // trailing space ")).
+Eval vm_compute in ("<<<M4520>>>" ++ check (runes_of_ascii "packet A {
     match k as n {
-        [""a"", 22, ""c c"", 4, ""e""] : B,
+        [
+            ""a"", ""bb"", 007, ""d"", ""e"",
+            66, ""g""
+        ] : B,
         2 : C,
     },
 }")).
-Eval vm_compute in ("<<<M844>>>" ++ check (runes_of_ascii "packet A {
+Eval vm_compute in ("<<<M1078>>>" ++ check (runes_of_ascii "options
+{ calculatedFrom
+// @lengthOf(
+// @lengthOf(
+=10
+}
+// trailing space 
+// a // b
+packet float { uint16 i64_ `two words` , }
+")).
+Eval vm_compute in ("<<<M1335>>>" ++ check (runes_of_ascii "
+options {  lengthOf	=
+""x y"" } // " ++ [27880; 37322]%N ++ runes_of_ascii "
+packet
+    stringy
+{ } options
+//x
+// packet A { u8 x, }
+{ Z9_=//	t
+zchar[ 007 ]//x
+; }")).
+Eval vm_compute in ("<<<M3275>>>" ++ check (runes_of_ascii "MetaData metadata { } MetaData rootA {
+// c
+i8 i64_ , roots options1 `a\` , lengthOf Header , Z9_ Foo , int16 BodyLength , }")).
+Eval vm_compute in ("<<<M3307>>>" ++ check (runes_of_ascii "MetaData metadata { } MetaData rootA { i8 i64_ , roots options1 `a\` , lengthOf Header , Z9_ Foo , int16 BodyLength ,
+// c
+}")).
+Eval vm_compute in ("<<<M4268>>>" ++ check (runes_of_ascii "root packet metadata {
+    u16 len @lengthOf(As) `crlf
+    line`,// trailing space 
+    uint8 u8x `crlf
+    line`,
+}")).
+Eval vm_compute in ("<<<M1214>>>" ++ check (runes_of_ascii "
+MetaData metadata { u128 f32a , i16 _x , float64
+    rootA `" ++ [28040; 24687; 31867; 22411]%N ++ runes_of_ascii "`,pack u, /// triple
+u32 Z9_ , u16 float, } // c")).
+Eval vm_compute in ("<<<M3022>>>" ++ check (runes_of_ascii "packet A {
   match k as n {
-    [""a"", 22, ""c c"", 4, ""e"", 66, ""g""] : B,
+    [""a"", ""bb"", 007, ""d"", ""e"", 66, ""g"", ""h"", 9, ""j"", ""k"", 12] : B
     2 : C
   },
 }")).
-Eval vm_compute in ("<<<M965>>>" ++ check (runes_of_ascii "packet A {
-    u32 crc @calculatedFrom(""x\
-y""),
-    @calculatedFrom(""x\
-y"") u8 y,
-}")).
-Eval vm_compute in ("<<<M1220>>>" ++ check (runes_of_ascii "packet o { @tag( 42 ) repeat // c
-x { char[ 0123456789 ] i64_ , } , } options { }")).
-Eval vm_compute in ("<<<M1901>>>" ++ check (runes_of_ascii "  MetaData _x
-
-{ 
-zchar[ 4294967296 // c
-    ] lengthOf `// not a comment` ,
-
+Eval vm_compute in ("<<<M3346>>>" ++ check (runes_of_ascii "MetaData float { uint8 BodyLength , } MetaData charz { float32 trueish `a\` , i16 // c
+metadata `say ""hi""` , }")).
+Eval vm_compute in ("<<<M1761>>>" ++ check (runes_of_ascii "options { } packet Packet{char[] i64_ ,
+@tag(
+    255) match
+crc as i8i8{""{,}"" : trueish """" : Pad , ""a\\""")).
+Eval vm_compute in ("<<<M733>>>" ++ check (runes_of_ascii "options {
+// a // b
+//x
+o = ""a\""b""
+; metadata
+= char[ 007 ] ;
+    // trailing space 
+    Pad
+=""\" ++ [233]%N ++ runes_of_ascii """
 }
-
 ")).
-Eval vm_compute in ("<<<M801>>>" ++ check (runes_of_ascii "packet A {
+Eval vm_compute in ("<<<M1910>>>" ++ check (runes_of_ascii "packet	packetx { // trailing space 
+x_y_z
+{
+string
+charz ,
+string x// @lengthOf(
+`two words`
+    ,")).
+Eval vm_compute in ("<<<M326>>>" ++ check (runes_of_ascii "  options {	leftPad // a // b
+=
+true ;
+// 50% %s
+// a // b
+string_='0' ; x
+= '0'
+crc =	""\" ++ [233]%N ++ runes_of_ascii """
+}
+")).
+Eval vm_compute in ("<<<M1746>>>" ++ check (runes_of_ascii "options { } packet Packet{char[] i64_ ,
+@tag(
+    255) match
+crc as i8i8{""{,}"" : trueish """" :")).
+Eval vm_compute in ("<<<M2255>>>" ++ check (runes_of_ascii "MetaData _x {string x `// not a comment` , string
+i64_ // trailing space 
+`a\` `a\` ,
+    }
+")).
+Eval vm_compute in ("<<<M1411>>>" ++ check (runes_of_ascii "root packet SimpleMessage {
+    uint16 MsgType `" ++ [28040; 24687; 31867; 22411]%N ++ runes_of_ascii "`,
+    string JsonBody `Json" ++ [23383; 31526; 20018; 28040; 24687; 20307]%N ++ runes_of_ascii "`,
+}")).
+Eval vm_compute in ("<<<M2282>>>" ++ check (runes_of_ascii "MetaData _x " ++ [8232]%N ++ runes_of_ascii "{string x `// not a comment` , string
+i64_ // trailing space 
+`a\` ,
+    }
+")).
+Eval vm_compute in ("<<<M2964>>>" ++ check (runes_of_ascii "packet A {
   match k as n {
-    [""a"", ""bb"", ""c c"", ""d""] : B,
+    [1, ""bb"", 007, ""d"", 5, ""f"", 7, ""h""] : B
     2 : C
   },
 }")).
-Eval vm_compute in ("<<<M1914>>>" ++ check (runes_of_ascii "packet Inner {
-    u8 a,
-}
-
-root packet P {
-    Inner ref_obj,
-    u8 x,
+Eval vm_compute in ("<<<M4232>>>" ++ check (runes_of_ascii "packet A {
+    Inner {
+        match k as n {
+            [1] : B,
+        },
+    },
 }")).
-Eval vm_compute in ("<<<M321>>>" ++ check (runes_of_ascii "MetaData As { } MetaData asx
+Eval vm_compute in ("<<<M671>>>" ++ check (runes_of_ascii "MetaData pack
+// trailing space 
+// a // b
+{ uint8
+x // a // b
+,
+string
+chars , }
+")).
+Eval vm_compute in ("<<<M2940>>>" ++ check (runes_of_ascii "packet A {
+  match k as n {
+    [""a"", 22, ""c c"", 4, ""e"", 66] : B
+    2 : C
+  },
+}")).
+Eval vm_compute in ("<<<M1282>>>" ++ check (runes_of_ascii "
+MetaData
+A// trailing space 
+{ asx rootA,
+    int8 string_ , body string_ , }
+")).
+Eval vm_compute in ("<<<M3363>>>" ++ check (runes_of_ascii "
+// c
+MetaData _x { f64 charz `tab	here` , } options { BodyLength = """ ++ [233]%N ++ runes_of_ascii "t" ++ [233]%N ++ runes_of_ascii """ ; }")).
+Eval vm_compute in ("<<<M3379>>>" ++ check (runes_of_ascii "MetaData _x { f64 charz `tab	here` , }
+// c
+options { BodyLength = """ ++ [233]%N ++ runes_of_ascii "t" ++ [233]%N ++ runes_of_ascii """ ; }")).
+Eval vm_compute in ("<<<M2918>>>" ++ check (runes_of_ascii "packet A {
+  match k as n {
+    [""a"", ""bb"", 007, ""d""] : B
+    2 : C
+  },
+}")).
+Eval vm_compute in ("<<<M2897>>>" ++ check (runes_of_ascii "packet A {
+  match k as n {
+    [""a"", ""bb"", ""c c""] : B
+    2 : C
+  },
+}")).
+Eval vm_compute in ("<<<M1895>>>" ++ check (runes_of_ascii "packet	packetx { // trailing space 
+x_y_z
 {
-    char[ 007 ] Logon
-`two words` , }
-")).
-Eval vm_compute in ("<<<M269>>>" ++ check (runes_of_ascii "MetaData u8x { uint32 i8i8 `it's`, } options
-{
-    Logon
-= '0'	; }
-")).
-Eval vm_compute in ("<<<M1182>>>" ++ check (runes_of_ascii "options { // c1
-u8x // c2a
-  // c2b
-= // c3a
-  // c3b
-3 } // c5
-")).
-Eval vm_compute in ("<<<M1090>>>" ++ check (runes_of_ascii "packet A { @leftPad() char[4] x, @rightPad( ) zchar[2] y, }")).
-Eval vm_compute in ("<<<M785>>>" ++ check (runes_of_ascii "packet A { Inner { match k as n { [1,22] : B, }, }, }")).
-Eval vm_compute in ("<<<M950>>>" ++ check (runes_of_ascii "MetaData M {
-    u8 x `x
-`,
-    T t `x
-`,
+string
+charz ,
+string")).
+Eval vm_compute in ("<<<M3425>>>" ++ check (runes_of_ascii "packet o { @tag( 4294967296 ) options1 @lengthOf( u8x ) `" ++ [233]%N ++ runes_of_ascii "` ,
+// c
 }")).
-Eval vm_compute in ("<<<M1112>>>" ++ check (runes_of_ascii "MetaData zchar { zchar[ 3 // c
-] Pad , }")).
-Eval vm_compute in ("<<<M1067>>>" ++ check (runes_of_ascii "options { a = 1 // c b = 2; // d}")).
-Eval vm_compute in ("<<<M1702>>>" ++ check (runes_of_ascii "packet  // c
-    	lengthOf { }
-
+Eval vm_compute in ("<<<M2958>>>" ++ check (runes_of_ascii "packet A { Inner { match k as n { [1,22,007,4,5,66,7] : B, }, }, }")).
+Eval vm_compute in ("<<<M793>>>" ++ check (runes_of_ascii "//	t
+options {
+chars =' 'a1  = false
+x  = i32 ; msg_type= ""1""
+}")).
+Eval vm_compute in ("<<<M4473>>>" ++ check (runes_of_ascii "MetaData M {
+    u8 x `a
+        b`,
+    T t `a
+        b`,
+}")).
+Eval vm_compute in ("<<<M2625>>>" ++ check (runes_of_ascii "packet A { match k as n { 1 : B 2 : C ""s"" : D [1] : E }, }")).
+Eval vm_compute in ("<<<M4446>>>" ++ check (runes_of_ascii "  packet u8x{ 
+        // " ++ [27880; 37322]%N ++ runes_of_ascii "
+	// packet A { u8 x, }
+	}
 ")).
-Eval vm_compute in ("<<<M1027>>>" ++ check (runes_of_ascii "packet A {
- u8 x `d" ++ [8287]%N ++ runes_of_ascii "`, // c" ++ [8287]%N ++ runes_of_ascii "
+Eval vm_compute in ("<<<M1355>>>" ++ check (runes_of_ascii "// " ++ [128512]%N ++ runes_of_ascii " emoji
+MetaData u {int	Foo, f32a stringy ``,
+} 	 ")).
+Eval vm_compute in ("<<<M3927>>>" ++ check (runes_of_ascii "MetaData crc {
+    /// triple
+    MetaDataX i64_,
 }")).
-Eval vm_compute in ("<<<M1717>>>" ++ check (runes_of_ascii "// c" ++ [160]%N ++ runes_of_ascii "
-    packet
-
-A  {
-} ")).
-Eval vm_compute in ("<<<M1300>>>" ++ check (runes_of_ascii "packet lengthOf { // c
-}")).
-Eval vm_compute in ("<<<M1040>>>" ++ check (runes_of_ascii "packet A {
+Eval vm_compute in ("<<<M2341>>>" ++ check (runes_of_ascii "
+MetaData Pad{
+u32 root#A `line1
+line2` ,
+    }
+")).
+Eval vm_compute in ("<<<M303>>>" ++ check (runes_of_ascii "MetaData repeatCount
+{ // `tick` ""quote"" 'q'
 }
-// c 	")).
-Eval vm_compute in ("<<<M1030>>>" ++ check (runes_of_ascii "packet A {
-}
-// c" ++ [11]%N)).
-Eval vm_compute in ("<<<M1033>>>" ++ check (runes_of_ascii "packet A {
-}// c" ++ [12]%N)).
-Eval vm_compute in ("<<<M2003>>>" ++ check (runes_of_ascii "
+")).
+Eval vm_compute in ("<<<M2347>>>" ++ check (runes_of_ascii "
+MetaData Pad{
+u32 " ++ [21517; 23383]%N ++ runes_of_ascii " `line1
+line2` ,
+    }
+")).
+Eval vm_compute in ("<<<M2621>>>" ++ check (runes_of_ascii "packet A { B { match k as n { 1 : C }, }, }")).
+Eval vm_compute in ("<<<M3082>>>" ++ check (runes_of_ascii "MetaData M {
+    u8 x `%`,
+    T t `%`,
+}")).
+Eval vm_compute in ("<<<M3247>>>" ++ check (runes_of_ascii "MetaData zchar { zchar[ 3 ] Pad , // c
+}")).
+Eval vm_compute in ("<<<M750>>>" ++ check (runes_of_ascii "options{ asx = u64 ; string_ = 10 }
+")).
+Eval vm_compute in ("<<<M3196>>>" ++ check (runes_of_ascii "options { a = 1 // c b = 2; // d}")).
+Eval vm_compute in ("<<<M2604>>>" ++ check (runes_of_ascii "packet A { string x @lengthOf(y) }")).
+Eval vm_compute in ("<<<M3480>>>" ++ check (runes_of_ascii "
+root	packet P
+{ string  s 
+,  }")).
+Eval vm_compute in ("<<<M3807>>>" ++ check (runes_of_ascii "
+packet
 
-  // c" ++ [133]%N)).
-Eval vm_compute in ("<<<M73>>>" ++ check (runes_of_ascii " 	 ")).
+    A
+    {	}// c" ++ [8192]%N ++ runes_of_ascii "
+")).
+Eval vm_compute in ("<<<M2785>>>" ++ check (runes_of_ascii "32z2Ts'tEZ!#DsS}:hBW/j5A6@W_f")).
+Eval vm_compute in ("<<<M2668>>>" ++ check (runes_of_ascii "MetaData M { repeat u8 x, }")).
+Eval vm_compute in ("<<<M126>>>" ++ check (runes_of_ascii "packet calculatedFrom { }")).
+Eval vm_compute in ("<<<M2687>>>" ++ check (runes_of_ascii "options { options = 1; }")).
+Eval vm_compute in ("<<<M4077>>>" ++ check (runes_of_ascii "// a
+// b
+packet A {
+}")).
+Eval vm_compute in ("<<<M4350>>>" ++ check (runes_of_ascii "
+packet
+
+A {  }// c")).
+Eval vm_compute in ("<<<M183>>>" ++ check (runes_of_ascii "// " ++ [27880; 37322]%N ++ runes_of_ascii "
+
+// " ++ [128512]%N ++ runes_of_ascii " emoji
+")).
+Eval vm_compute in ("<<<M3160>>>" ++ check (runes_of_ascii "// c" ++ [11]%N ++ runes_of_ascii "
+packet A {
+}")).
+Eval vm_compute in ("<<<M2704>>>" ++ check (runes_of_ascii "// only a comment")).
+Eval vm_compute in ("<<<M2679>>>" ++ check (runes_of_ascii "options { a 1; }")).
+Eval vm_compute in ("<<<M2649>>>" ++ check (runes_of_ascii "packet A { } }")).
+Eval vm_compute in ("<<<M4497>>>" ++ check (runes_of_ascii "// " ++ [128512]%N ++ runes_of_ascii " emoji
+")).
+Eval vm_compute in ("<<<M2500>>>" ++ check (runes_of_ascii "@rightPad")).
+Eval vm_compute in ("<<<M2468>>>" ++ check (runes_of_ascii "trueish")).
+Eval vm_compute in ("<<<M3168>>>" ++ check (runes_of_ascii "// c 	")).
+Eval vm_compute in ("<<<M3123>>>" ++ check (runes_of_ascii "// c" ++ [5760]%N)).
+Eval vm_compute in ("<<<M2561>>>" ++ check (runes_of_ascii "{}{}")).
+Eval vm_compute in ("<<<M2552>>>" ++ check (runes_of_ascii "a.b")).
+Eval vm_compute in ("<<<M2575>>>" ++ check ([233]%N ++ runes_of_ascii "a")).
